@@ -196,13 +196,13 @@ Lemma jset_jdel_comm : forall k k' v o, String.eqb k k' = false ->
   jset k v (jdel k' o) = jdel k' (jset k v o).
 Proof.
   intros k k' v o Hne. assert (Hne' : String.eqb k' k = false) by (rewrite String.eqb_sym; exact Hne).
-  induction o as [|[k2 v2] t IH]; cbn.
-  - now rewrite Hne'.
-  - destruct (String.eqb k' k2) eqn:E1; destruct (String.eqb k k2) eqn:E2; cbn; rewrite ?E1, ?E2; cbn.
+  induction o as [|[k2 v2] t IH].
+  - cbn. now rewrite Hne'.
+  - destruct (String.eqb k' k2) eqn:E1; destruct (String.eqb k k2) eqn:E2.
     + apply String.eqb_eq in E1, E2. subst. now rewrite String.eqb_refl in Hne.
-    + exact IH.
-    + rewrite E1. reflexivity.
-    + rewrite E1, IH. reflexivity.
+    + cbn [jdel jset]. rewrite E1, E2. cbn [jdel]. rewrite E1. exact IH.
+    + cbn [jdel jset]. rewrite E1, E2. cbn [jdel jset]. rewrite E1, E2. reflexivity.
+    + cbn [jdel jset]. rewrite E1, E2. cbn [jdel jset]. rewrite E1, E2, IH. reflexivity.
 Qed.
 
 (* the Transceiver branch (after the fix of F5) builds the same entries as the Edfa branch *)
@@ -834,6 +834,14 @@ Proof.
   destruct (String.eqb k k'); [discriminate|]. intros H. now rewrite IH.
 Qed.
 
+Lemma jset_same : forall k v o, jget k o = Some v -> jset k v o = o.
+Proof.
+  intros k v o; induction o as [|[k' v'] t IH]; cbn; [discriminate|].
+  destruct (String.eqb k k') eqn:E.
+  - intros H. injection H as <-. reflexivity.
+  - intros H. now rewrite IH.
+Qed.
+
 Lemma jset_comm : forall k1 k2 v1 v2 o, String.eqb k1 k2 = false -> jget k1 o <> None -> jget k2 o <> None ->
   jset k1 v1 (jset k2 v2 o) = jset k2 v2 (jset k1 v1 o).
 Proof.
@@ -1063,10 +1071,10 @@ Theorem range_roundtrip : forall doc spans sis,
   exists doc', convert_delta_power_range doc = Ok doc' /\ convert_back_delta_power_range doc' = Ok doc.
 Proof.
   intros doc spans sis Hs Hi Fs Fi.
-  destruct (range_roundtrip_key "Span" _ _ doc spans eq_refl Hs Fs) as (sp' & A1 & A2).
+  destruct (range_roundtrip_key "Span" "delta_power_range_db" "delta_power_range_dict_db" doc spans eq_refl Hs Fs) as (sp' & A1 & A2).
   set (d1 := jset "Span" (JArr sp') doc) in *.
   assert (Hi1 : jget "SI" d1 = Some (JArr sis)) by (unfold d1; rewrite jget_jset_other by reflexivity; exact Hi).
-  destruct (range_roundtrip_key "SI" _ _ d1 sis eq_refl Hi1 Fi) as (si' & B1 & B2).
+  destruct (range_roundtrip_key "SI" "power_range_db" "power_range_dict_db" d1 sis eq_refl Hi1 Fi) as (si' & B1 & B2).
   set (d2 := jset "SI" (JArr si') d1) in *.
   exists d2. unfold convert_delta_power_range, convert_back_delta_power_range. rewrite A1. cbn [bind]. split; [exact B1|].
   (* back: Span first, on d2 *)
@@ -1081,7 +1089,9 @@ Proof.
   unfold back_range_all at 1. rewrite Hs2. cbn [as_arr bind]. rewrite Hall. cbn [bind].
   (* jset Span spans d2 = jset SI si' doc *)
   assert (E : jset "Span" (JArr spans) d2 = jset "SI" (JArr si') doc).
-  { unfold d2, d1. rewrite jset_comm by reflexivity. rewrite jset_jset, (jset_same _ _ _ Hs). reflexivity. }
+  { unfold d2, d1. rewrite (jset_comm "Span" "SI");
+      [|reflexivity|rewrite jget_jset_same; discriminate|rewrite jget_jset_other by reflexivity; rewrite Hi; discriminate].
+    rewrite jset_jset, (jset_same _ _ _ Hs). reflexivity. }
   rewrite E.
   unfold back_range_all in B2. unfold d2 in B2. rewrite jget_jset_same in B2. cbn [as_arr bind] in B2.
   destruct (mapM (back_range_entry "power_range_db" "power_range_dict_db") si') as [y|] eqn:E2; [|discriminate].
@@ -1408,14 +1418,6 @@ Lemma idempotent_of_roundtrip : forall d,
 Proof. intros d (y & H1 & H2). exists y, d. repeat split; try assumption. exists y. auto. Qed.
 
 (* ------------------------------------------------------------------ whole documents: services *)
-Lemma jset_same : forall k v o, jget k o = Some v -> jset k v o = o.
-Proof.
-  intros k v o; induction o as [|[k' v'] t IH]; cbn; [discriminate|].
-  destruct (String.eqb k k') eqn:E.
-  - intros H. injection H as <-. reflexivity.
-  - intros H. now rewrite IH.
-Qed.
-
 Lemma mapM_id : forall {A} (f : A -> res A) l, Forall (fun x => f x = Ok x) l -> mapM f l = Ok l.
 Proof.
   intros A f l H; induction H as [|x t Hx Ht IH]; [reflexivity|]. rewrite mapM_cons, Hx. cbn [bind]. now rewrite IH.
@@ -1587,4 +1589,1240 @@ Proof.
     rewrite prec_d_dflt. cbn [none_to_empty] in G1. fold o' in G1. rewrite G1. reflexivity.
   - unfold yang_to_legacy, convert_back. cbn [empty_to_none map fst snd]. rewrite cb_obj_eq, mapM_cons, mapM_nil.
     cbn [fst snd]. rewrite G2. cbn [bind as_obj]. reflexivity.
+Qed.
+
+(* ------------------------------------------------------------------ whole documents: topology and equipment (frames) *)
+Definition nmap (o : obj) : obj := map (fun kv => (fst kv, none_to_empty (snd kv))) o.
+
+(* if the structural chain commutes with none_to_empty on this document (it maps N top to N t2) and the back
+   chain undoes it, the whole conversion there and back is the identity *)
+Theorem topology_frame : forall top t2,
+  jhas K_elements top = true ->
+  chain topo_forth (nmap top) = Ok (nmap t2) ->
+  chain topo_back t2 = Ok top ->
+  legacy_nulls_ok (JObj t2) = true -> doc_ok (prec TOPO_NMSP) (JObj t2) = true ->
+  remove_ns "gnpy-network-topology:" (JObj top) = JObj top ->
+  exists y, legacy_to_yang (JObj top) = Ok y /\ yang_to_legacy y = Ok (JObj top).
+Proof.
+  intros top t2 He Hf Hb Hn W Hr.
+  destruct (generic_roundtrip (JObj t2) (prec TOPO_NMSP) Hn W) as (y0 & G1 & G2).
+  exists (JObj [(TOPO_NMSP, y0)]). split.
+  - unfold legacy_to_yang. cbn [none_to_empty as_obj bind]. fold (nmap top).
+    assert (jhas K_elements (nmap top) = true) as -> by (unfold nmap; now rewrite jhas_map_val).
+    rewrite Hf. cbn [bind]. unfold convert_dict. rewrite cd_obj_eq, mapM_cons, mapM_nil. cbn [fst snd].
+    rewrite prec_d_dflt. cbn [none_to_empty] in G1. fold (nmap t2) in G1. rewrite G1. reflexivity.
+  - unfold yang_to_legacy, convert_back. cbn [empty_to_none map fst snd]. rewrite cb_obj_eq, mapM_cons, mapM_nil.
+    cbn [fst snd]. rewrite G2. cbn [bind as_obj].
+    cbn [jhas jget K_elements TOPO_NMSP String.eqb Ascii.eqb Bool.eqb jreq bind as_obj].
+    rewrite Hb. cbn [bind]. now rewrite Hr.
+Qed.
+
+Theorem equipment_frame : forall top t2,
+  jhas K_elements top = false -> jhas TOPO_NMSP top = false -> any_key EQPT_TYPES top = true ->
+  chain eqpt_forth (nmap top) = Ok (nmap t2) ->
+  chain eqpt_back t2 = Ok top ->
+  legacy_nulls_ok (JObj t2) = true -> doc_ok (prec EQPT_NMSP) (JObj t2) = true ->
+  remove_ns "gnpy-eqpt-config:" (JObj top) = JObj top ->
+  exists y, legacy_to_yang (JObj top) = Ok y /\ yang_to_legacy y = Ok (JObj top).
+Proof.
+  intros top t2 H1 H2 H3 Hf Hb Hn W Hr.
+  destruct (generic_roundtrip (JObj t2) (prec EQPT_NMSP) Hn W) as (y0 & G1 & G2).
+  exists (JObj [(EQPT_NMSP, y0)]). split.
+  - unfold legacy_to_yang. cbn [none_to_empty as_obj bind]. fold (nmap top).
+    assert (jhas K_elements (nmap top) = false) as -> by (unfold nmap; now rewrite jhas_map_val).
+    assert (jhas TOPO_NMSP (nmap top) = false) as -> by (unfold nmap; now rewrite jhas_map_val).
+    assert (any_key EQPT_TYPES (nmap top) = true) as -> by (unfold nmap; now rewrite any_key_map_val).
+    rewrite Hf. cbn [bind]. unfold convert_dict. rewrite cd_obj_eq, mapM_cons, mapM_nil. cbn [fst snd].
+    rewrite prec_d_dflt. cbn [none_to_empty] in G1. fold (nmap t2) in G1. rewrite G1. reflexivity.
+  - unfold yang_to_legacy, convert_back. cbn [empty_to_none map fst snd]. rewrite cb_obj_eq, mapM_cons, mapM_nil.
+    cbn [fst snd]. rewrite G2. cbn [bind as_obj].
+    cbn [jhas jget any_key existsb K_elements TOPO_NMSP EQPT_TYPES EQPT_NMSP String.eqb Ascii.eqb Bool.eqb orb].
+    unfold under, jreq. cbn [jget EQPT_NMSP String.eqb Ascii.eqb Bool.eqb bind as_obj].
+    rewrite Hb. cbn [bind jset EQPT_NMSP String.eqb Ascii.eqb Bool.eqb jget]. now rewrite Hr.
+Qed.
+
+(* ------------------------------------------------------------------ key-local transformers and overlays *)
+(* doc with the values of the keys bound in s replaced (first binding of s wins) *)
+Definition jover (s : obj) (doc : obj) : obj :=
+  map (fun kv => (fst kv, match jget (fst kv) s with Some v => v | None => snd kv end)) doc.
+
+Lemma jover_nil : forall doc, jover [] doc = doc.
+Proof. intros doc; unfold jover; induction doc as [|[k v] t IH]; cbn in *; [reflexivity|congruence]. Qed.
+
+Lemma jget_jover : forall k s doc,
+  jget k (jover s doc) = match jget k doc with
+                         | None => None
+                         | Some v0 => Some (match jget k s with Some v => v | None => v0 end)
+                         end.
+Proof.
+  intros k s doc; induction doc as [|[k' v'] t IH]; cbn; [reflexivity|].
+  destruct (String.eqb k k') eqn:E; [|exact IH]. apply String.eqb_eq in E. now subst.
+Qed.
+
+Lemma jover_cons_notin : forall k v s t, ~ In k (keys t) -> jover ((k, v) :: s) t = jover s t.
+Proof.
+  intros k v s t; induction t as [|[k2 v2] t2 IH]; intros H; cbn; [reflexivity|].
+  assert (String.eqb k2 k = false) as -> by (apply String.eqb_neq; intro; subst; apply H; now left).
+  f_equal. apply IH. intro Hin. apply H. now right.
+Qed.
+
+Lemma jset_jover : forall k v s doc, NoDup (keys doc) -> jget k doc <> None ->
+  jset k v (jover s doc) = jover ((k, v) :: s) doc.
+Proof.
+  intros k v s doc; induction doc as [|[k' v'] t IH]; intros Hnd Hk; cbn in *; [now elim Hk|].
+  inversion Hnd as [|? ? Hnin Hnd']; subst.
+  destruct (String.eqb k k') eqn:E.
+  - apply String.eqb_eq in E. subst k'. rewrite String.eqb_refl. f_equal.
+    symmetry. now apply jover_cons_notin.
+  - assert (String.eqb k' k = false) as -> by (rewrite String.eqb_sym; exact E).
+    f_equal. now apply IH.
+Qed.
+
+Lemma jover_id : forall s doc,
+  (forall k v, jget k s = Some v -> jget k doc = Some v \/ jget k doc = None) -> NoDup (keys doc) -> jover s doc = doc.
+Proof.
+  intros s doc; induction doc as [|[k v] t IH]; intros H Hnd; cbn; [reflexivity|].
+  inversion Hnd as [|? ? Hnin Hnd']; subst. f_equal.
+  - f_equal. destruct (jget k s) as [w|] eqn:E; [|reflexivity].
+    destruct (H k w E) as [H1|H1]; cbn in H1; rewrite String.eqb_refl in H1; [now injection H1|discriminate].
+  - apply IH; [|exact Hnd']. intros k' w E. destruct (H k' w E) as [H1|H1]; cbn in H1.
+    + destruct (String.eqb k' k) eqn:E2; [|now left].
+      apply String.eqb_eq in E2. subst k'. right. apply jget_none_notin. exact Hnin.
+    + destruct (String.eqb k' k); [discriminate|now right].
+Qed.
+
+Lemma nmap_jover : forall s doc, nmap (jover s doc) = jover (nmap s) (nmap doc).
+Proof.
+  intros s doc; unfold nmap, jover. rewrite !map_map. apply map_ext. intros [k v]. cbn [fst snd]. f_equal.
+  rewrite (jget_map_val none_to_empty). now destruct (jget k s).
+Qed.
+
+Lemma keys_jover : forall s doc, keys (jover s doc) = keys doc.
+Proof. intros s doc; unfold keys, jover. rewrite map_map. reflexivity. Qed.
+Lemma keys_nmap : forall doc, keys (nmap doc) = keys doc.
+Proof. intros doc; unfold keys, nmap. rewrite map_map. reflexivity. Qed.
+Lemma jget_nmap : forall k doc, jget k (nmap doc) = option_map none_to_empty (jget k doc).
+Proof. intros; apply jget_map_val. Qed.
+
+(* a list of entries, each of which is rewritten by f on the document after none_to_empty and restored by h *)
+Definition ET (f h : json -> res json) (e : json) : Prop :=
+  exists e1, f e = Ok e1 /\ f (none_to_empty e) = Ok (none_to_empty e1) /\ h e1 = Ok e /\
+             e <> JNull /\ e1 <> JNull.
+
+Lemma mapM_ET : forall f h es, Forall (ET f h) es ->
+  exists es1, mapM f es = Ok es1 /\ mapM f (map none_to_empty es) = Ok (map none_to_empty es1) /\ mapM h es1 = Ok es /\
+              es <> [JNull] /\ es1 <> [JNull].
+Proof.
+  intros f h es H; induction H as [|e t (e1 & H0 & H1 & H2 & H3 & H4) Ht (t1 & I0 & I1 & I2 & _ & _)].
+  - exists []. repeat split; try reflexivity; discriminate.
+  - exists (e1 :: t1). cbn [map]. rewrite !mapM_cons, H0, H1, H2. cbn [bind]. rewrite I0, I1, I2. cbn [bind].
+    repeat split; intro Hc; injection Hc as Hc _; contradiction.
+Qed.
+
+(* ------------------------------------------------------------------ equipment libraries: composition *)
+Definition wrapf (f : obj -> res obj) (e : json) : res json :=
+  let* eo := as_obj e in let* eo' := f eo in Ok (JObj eo').
+(* if key in doc: doc[key] = [fj(e) for e in doc[key]] *)
+Definition on_list (key : string) (fj : json -> res json) (doc : obj) : res obj :=
+  match jget key doc with
+  | None => Ok doc
+  | Some l => let* items := as_arr l in let* items' := mapM fj items in Ok (jset key (JArr items') doc)
+  end.
+Lemma on_entries_on_list : forall key f doc, on_entries key f doc = on_list key (wrapf f) doc.
+Proof. reflexivity. Qed.
+Lemma back_range_all_on_list : forall key lk dk doc, back_range_all key lk dk doc = on_list key (back_range_entry lk dk) doc.
+Proof. reflexivity. Qed.
+
+(* the value of `key`, when present, is a list of entries each satisfying ET f h *)
+Definition KV (key : string) (f h : json -> res json) (top : obj) : Prop :=
+  match jget key top with
+  | None => True
+  | Some v0 => exists es, v0 = JArr es /\ Forall (ET f h) es
+  end.
+
+Lemma on_list_absent : forall key fj s B X, jget key B = None ->
+  on_list key fj (jover s B) = Ok (jover ((key, X) :: s) B).
+Proof.
+  intros key fj s B X H. unfold on_list. rewrite jget_jover, H.
+  rewrite jover_cons_notin by (now apply jget_none_notin). reflexivity.
+Qed.
+
+(* forward step: on the document itself and on the document after none_to_empty *)
+Lemma kv_forth : forall key f h top s sN, NoDup (keys top) -> KV key f h top -> jget key s = None -> jget key sN = None ->
+  exists X, on_list key f (jover s top) = Ok (jover ((key, X) :: s) top) /\
+            on_list key f (jover sN (nmap top)) = Ok (jover ((key, none_to_empty X) :: sN) (nmap top)) /\
+            match jget key top with
+            | None => True
+            | Some v0 => exists es es1, v0 = JArr es /\ X = JArr es1 /\ mapM h es1 = Ok es
+            end.
+Proof.
+  intros key f h top s sN Hnd Hkv Hs HsN. unfold KV in Hkv. destruct (jget key top) as [v0|] eqn:E.
+  - destruct Hkv as (es & -> & HF). destruct (mapM_ET f h es HF) as (es1 & I0 & I1 & I2 & N1 & N2).
+    exists (JArr es1). split; [|split; [|eauto]].
+    + unfold on_list. rewrite jget_jover, E, Hs. cbn [as_arr bind]. rewrite I0. cbn [bind].
+      rewrite jset_jover; [reflexivity|exact Hnd|rewrite E; discriminate].
+    + unfold on_list. rewrite jget_jover, jget_nmap, E, HsN. cbn [option_map].
+      rewrite !n2e_arr by assumption. cbn [as_arr bind]. rewrite I1. cbn [bind].
+      rewrite jset_jover; [reflexivity|now rewrite keys_nmap|rewrite jget_nmap, E; discriminate].
+  - exists JNull. split; [|split; [|exact I]]; apply on_list_absent; [exact E|now rewrite jget_nmap, E].
+Qed.
+
+(* backward step, on the converted document *)
+Lemma kv_back : forall key h top s X, NoDup (keys top) ->
+  match jget key top with
+  | None => True
+  | Some v0 => exists es es1, v0 = JArr es /\ X = JArr es1 /\ mapM h es1 = Ok es
+  end ->
+  jget key s = Some X ->
+  exists Y, on_list key h (jover s top) = Ok (jover ((key, Y) :: s) top) /\
+            (forall v0, jget key top = Some v0 -> Y = v0).
+Proof.
+  intros key h top s X Hnd Hb Hs. destruct (jget key top) as [v0|] eqn:E.
+  - destruct Hb as (es & es1 & -> & -> & Hm). exists (JArr es). split.
+    + unfold on_list. rewrite jget_jover, E, Hs. cbn [as_arr bind]. rewrite Hm. cbn [bind].
+      rewrite jset_jover; [reflexivity|exact Hnd|rewrite E; discriminate].
+    + intros v0 Hv. now injection Hv.
+  - exists JNull. split; [now apply on_list_absent|discriminate].
+Qed.
+
+Lemma nmap_app : forall a b, nmap (a ++ b) = nmap a ++ nmap b.
+Proof. intros; unfold nmap; apply map_app. Qed.
+Lemma n2e_obj : forall o, none_to_empty (JObj o) = JObj (nmap o).
+Proof. reflexivity. Qed.
+Lemma jget_nmap_none : forall k o, jget k o = None -> jget k (nmap o) = None.
+Proof. intros k o H. now rewrite jget_nmap, H. Qed.
+
+(* RamanFiber entries without the legacy raman_efficiency block are left alone *)
+Lemma ET_raman_plain : forall eo, jget K_raman_eff eo = None ->
+  ET (wrapf raman_eff_entry) (wrapf back_raman_eff_entry) (JObj eo).
+Proof.
+  intros eo H. exists (JObj eo). repeat split; try discriminate.
+  - unfold wrapf, raman_eff_entry. cbn [as_obj bind]. now rewrite H.
+  - rewrite n2e_obj. unfold wrapf, raman_eff_entry. cbn [as_obj bind]. now rewrite (jget_nmap_none _ _ H).
+  - unfold wrapf, back_raman_eff_entry. cbn [as_obj bind]. now rewrite H.
+Qed.
+
+Lemma ET_range : forall lk dk e, String.eqb lk dk = false -> range_entry_ok lk dk e ->
+  ET (wrapf (range_entry lk dk)) (back_range_entry lk dk) e.
+Proof.
+  intros lk dk e Hne (others & a & b & c & -> & H1 & H2).
+  exists (JObj (others ++ [(dk, range_dict a b c)])). repeat split; try discriminate.
+  - unfold wrapf. cbn [as_obj bind]. now rewrite (range_entry_forth lk dk others _ _ _ Hne H1 H2).
+  - rewrite !n2e_obj, !nmap_app. cbn [nmap map fst snd].
+    rewrite (n2e_arr [a; b; c]) by discriminate. cbn [map].
+    unfold wrapf. cbn [as_obj bind].
+    rewrite (range_entry_forth lk dk (nmap others) _ _ _ Hne (jget_nmap_none _ _ H1) (jget_nmap_none _ _ H2)).
+    reflexivity.
+  - now apply back_range_entry_ok.
+Qed.
+
+(* an amplifier entry: no nf_coef, or nf_coef as the last key holding a non-empty list of numbers *)
+Definition edfa_entry_ok (e : json) : Prop :=
+  exists eo, e = JObj eo /\
+    (jget "nf_coef" eo = None \/
+     exists others m d ct, eo = others ++ [("nf_coef"%string, JArr (JNum m d :: ct))] /\ jget "nf_coef" others = None).
+
+Lemma enum_coef_n2e : forall l i, map none_to_empty (enum_coef i l) = enum_coef i (map none_to_empty l).
+Proof. induction l as [|c t IH]; intros i; cbn; [reflexivity|]. now rewrite IH. Qed.
+
+Lemma ET_edfa : forall e, edfa_entry_ok e -> ET (wrapf (nf_forth "nf_coef")) (wrapf (nf_back "nf_coef")) e.
+Proof.
+  intros e (eo & -> & [H|(others & m & d & ct & -> & H)]).
+  - exists (JObj eo). repeat split; try discriminate.
+    + unfold wrapf, nf_forth. cbn [as_obj bind]. now rewrite H.
+    + rewrite n2e_obj. unfold wrapf, nf_forth. cbn [as_obj bind]. now rewrite (jget_nmap_none _ _ H).
+    + unfold wrapf, nf_back. cbn [as_obj bind]. now rewrite H.
+  - destruct (nf_coef_roundtrip "nf_coef" others (JNum m d) ct H eq_refl) as (e' & F1 & B1).
+    exists (JObj e'). repeat split; try discriminate.
+    + unfold wrapf. cbn [as_obj bind]. now rewrite F1.
+    + (* forward on the none_to_empty side, explicitly *)
+      unfold nf_forth in F1. rewrite (jget_last _ _ _ H), (jdel_last _ _ _ H) in F1.
+      cbn [as_arr bind nth_req nth_error is_dict] in F1. injection F1 as <-.
+      rewrite (jset_notin _ _ _ H).
+      rewrite !n2e_obj, !nmap_app. cbn [nmap map fst snd].
+      rewrite (n2e_arr (JNum m d :: ct)) by discriminate.
+      change (JObj [("coef_order"%string, JNum 0 0); ("nf_coef"%string, JNum m d)] :: enum_coef 1 ct)
+        with (enum_coef 0 (JNum m d :: ct)).
+      rewrite (n2e_arr (enum_coef 0 (JNum m d :: ct))) by (cbn; discriminate).
+      rewrite enum_coef_n2e. cbn [map none_to_empty].
+      unfold wrapf, nf_forth. cbn [as_obj bind].
+      pose proof (jget_nmap_none _ _ H) as Hn.
+      rewrite (jget_last _ _ _ Hn), (jdel_last _ _ _ Hn). cbn [as_arr bind nth_req nth_error is_dict].
+      now rewrite (jset_notin _ _ _ Hn).
+    + unfold wrapf. cbn [as_obj bind]. now rewrite B1.
+Qed.
+
+(* add_missing_default_type_variety does nothing when every Roadm entry names its type_variety *)
+Definition roadm_entries_ok (top : obj) : Prop :=
+  match jget K_roadm top with
+  | None => True
+  | Some v => exists items, v = JArr items /\ Forall (fun e => exists eo, e = JObj eo /\ jhas "type_variety" eo = true) items
+  end.
+Lemma add_default_first_id : forall items,
+  Forall (fun e => exists eo, e = JObj eo /\ jhas "type_variety" eo = true) items -> add_default_first items = Ok items.
+Proof.
+  intros items H; induction H as [|e t (eo & -> & He) Ht IH]; [reflexivity|].
+  cbn [add_default_first key_in bind]. rewrite He, IH. reflexivity.
+Qed.
+Lemma add_default_id : forall doc, roadm_entries_ok doc -> add_missing_default_type_variety doc = Ok doc.
+Proof.
+  intros doc H. unfold add_missing_default_type_variety, roadm_entries_ok in *.
+  destruct (jget K_roadm doc) as [v|] eqn:E; [|reflexivity].
+  destruct H as (items & -> & HF). cbn [as_arr bind]. rewrite (add_default_first_id _ HF). cbn [bind].
+  now rewrite (jset_same _ _ _ E).
+Qed.
+
+Lemma roadm_entries_ok_nmap : forall v,
+  (exists items, v = JArr items /\ Forall (fun e => exists eo, e = JObj eo /\ jhas "type_variety" eo = true) items) ->
+  exists items, none_to_empty v = JArr items /\
+                Forall (fun e => exists eo, e = JObj eo /\ jhas "type_variety" eo = true) items.
+Proof.
+  intros v (items & -> & HF). exists (map none_to_empty items). split.
+  - apply n2e_arr. intro Hc. subst. inversion HF as [|? ? (eo & He & _) _]. discriminate.
+  - rewrite Forall_forall in *. intros e He. apply in_map_iff in He as (e0 & <- & He0).
+    destruct (HF e0 He0) as (eo & -> & Ht). exists (nmap eo). split; [reflexivity|].
+    unfold nmap. now rewrite jhas_map_val.
+Qed.
+
+Definition LKS := "delta_power_range_db"%string.
+Definition DKS := "delta_power_range_dict_db"%string.
+Definition LKI := "power_range_db"%string.
+Definition DKI := "power_range_dict_db"%string.
+
+(* an equipment library in canonical shape: RamanFiber entries without the legacy raman_efficiency block (F16),
+   every Span / SI entry with its range list as last key, amplifier entries with nf_coef (if any) as last key,
+   every Roadm entry with its type_variety *)
+Record eqpt_canonical (top : obj) : Prop := {
+  ec_nodup : NoDup (keys top);
+  ec_not_topo : jhas K_elements top = false /\ jhas TOPO_NMSP top = false;
+  ec_types : any_key EQPT_TYPES top = true;
+  ec_raman : KV "RamanFiber" (wrapf raman_eff_entry) (wrapf back_raman_eff_entry) top;
+  ec_span : KV "Span" (wrapf (range_entry LKS DKS)) (back_range_entry LKS DKS) top;
+  ec_si : KV "SI" (wrapf (range_entry LKI DKI)) (back_range_entry LKI DKI) top;
+  ec_edfa : KV "Edfa" (wrapf (nf_forth "nf_coef")) (wrapf (nf_back "nf_coef")) top;
+  ec_roadm : roadm_entries_ok top;
+  ec_ns : remove_ns "gnpy-eqpt-config:" (JObj top) = JObj top
+}.
+
+Lemma equipment_chains : forall top, eqpt_canonical top ->
+  exists t2, chain eqpt_forth top = Ok t2 /\ chain eqpt_forth (nmap top) = Ok (nmap t2) /\ chain eqpt_back t2 = Ok top.
+Proof.
+  intros top C. destruct C as [Hnd _ _ Hr Hs Hi He Hro _].
+  destruct (kv_forth _ _ _ top [] [] Hnd Hr eq_refl eq_refl) as (X0 & F0 & G0 & B0).
+  destruct (kv_forth _ _ _ top [("RamanFiber"%string, X0)] [("RamanFiber"%string, none_to_empty X0)] Hnd Hs eq_refl eq_refl)
+    as (X1 & F1 & G1 & B1).
+  destruct (kv_forth _ _ _ top (("Span"%string, X1) :: [("RamanFiber"%string, X0)])
+              (("Span"%string, none_to_empty X1) :: [("RamanFiber"%string, none_to_empty X0)]) Hnd Hi eq_refl eq_refl)
+    as (X2 & F2 & G2 & B2).
+  destruct (kv_forth _ _ _ top (("SI"%string, X2) :: ("Span"%string, X1) :: [("RamanFiber"%string, X0)])
+              (("SI"%string, none_to_empty X2) :: ("Span"%string, none_to_empty X1) :: [("RamanFiber"%string, none_to_empty X0)])
+              Hnd He eq_refl eq_refl)
+    as (X3 & F3 & G3 & B3).
+  set (sg := [("Edfa"%string, X3); ("SI"%string, X2); ("Span"%string, X1); ("RamanFiber"%string, X0)]) in *.
+  rewrite jover_nil in F0, G0.
+  exists (jover sg top).
+  assert (Hro1 : roadm_entries_ok (jover sg top)).
+  { unfold roadm_entries_ok in *. rewrite jget_jover. destruct (jget K_roadm top); [exact Hro|exact I]. }
+  assert (Hro2 : roadm_entries_ok (jover (nmap sg) (nmap top))).
+  { unfold roadm_entries_ok in *. rewrite jget_jover, jget_nmap. destruct (jget K_roadm top) as [v|]; [|exact I].
+    cbn [option_map]. change (jget K_roadm (nmap sg)) with (@None json). now apply roadm_entries_ok_nmap. }
+  split; [|split].
+  - unfold chain, eqpt_forth. cbn [fold_left bind]. unfold convert_raman_efficiency, convert_delta_power_range, convert_nf_coef.
+    rewrite ?on_entries_on_list. rewrite F0. cbn [bind]. rewrite ?on_entries_on_list. fold LKS DKS LKI DKI.
+    rewrite F1. cbn [bind]. rewrite ?on_entries_on_list. fold LKS DKS LKI DKI. rewrite F2. cbn [bind].
+    rewrite ?on_entries_on_list. rewrite F3. cbn [bind]. fold sg. now rewrite (add_default_id _ Hro1).
+  - rewrite nmap_jover.
+    unfold chain, eqpt_forth. cbn [fold_left bind]. unfold convert_raman_efficiency, convert_delta_power_range, convert_nf_coef.
+    rewrite ?on_entries_on_list. rewrite G0. cbn [bind]. rewrite ?on_entries_on_list. fold LKS DKS LKI DKI.
+    rewrite G1. cbn [bind]. rewrite ?on_entries_on_list. fold LKS DKS LKI DKI. rewrite G2. cbn [bind].
+    rewrite ?on_entries_on_list. rewrite G3. cbn [bind].
+    change (("Edfa"%string, none_to_empty X3) :: ("SI"%string, none_to_empty X2) :: ("Span"%string, none_to_empty X1)
+             :: [("RamanFiber"%string, none_to_empty X0)]) with (nmap sg).
+    now rewrite (add_default_id _ Hro2).
+  - destruct (kv_back "Span" _ top sg X1 Hnd B1 eq_refl) as (Y1 & K1 & Q1).
+    destruct (kv_back "SI" _ top (("Span"%string, Y1) :: sg) X2 Hnd B2 eq_refl) as (Y2 & K2 & Q2).
+    destruct (kv_back "RamanFiber" _ top (("SI"%string, Y2) :: ("Span"%string, Y1) :: sg) X0 Hnd B0 eq_refl) as (Y0 & K0 & Q0).
+    destruct (kv_back "Edfa" _ top (("RamanFiber"%string, Y0) :: ("SI"%string, Y2) :: ("Span"%string, Y1) :: sg) X3 Hnd B3 eq_refl)
+      as (Y3 & K3 & Q3).
+    unfold chain, eqpt_back. cbn [fold_left bind]. unfold convert_back_delta_power_range, convert_back_raman_efficiency, convert_back_nf_coef.
+    rewrite ?back_range_all_on_list. fold LKS DKS LKI DKI. rewrite K1. cbn [bind].
+    rewrite ?back_range_all_on_list. fold LKS DKS LKI DKI. rewrite K2. cbn [bind].
+    rewrite ?on_entries_on_list. rewrite K0. cbn [bind]. rewrite ?on_entries_on_list. rewrite K3. f_equal.
+    apply jover_id; [|exact Hnd]. intros k v Hk. cbn [jget] in Hk.
+    repeat match type of Hk with
+           | (if String.eqb k ?lit then _ else _) = _ =>
+               let E := fresh "E" in destruct (String.eqb k lit) eqn:E;
+               [apply String.eqb_eq in E; subst k; injection Hk as <-;
+                match goal with |- jget ?kk top = _ \/ _ => destruct (jget kk top) as [v0|] eqn:Et; [left|now right] end|]
+           end; try discriminate;
+    try (f_equal; symmetry; first [now apply Q3|now apply Q0|now apply Q2|now apply Q1]).
+    unfold sg in Hk. cbn [jget] in Hk.
+    repeat match goal with H : String.eqb k _ = false |- _ => rewrite H in Hk; clear H end. discriminate.
+Qed.
+
+Theorem y2l_l2y_equipment : forall top t2, eqpt_canonical top ->
+  chain eqpt_forth top = Ok t2 ->
+  legacy_nulls_ok (JObj t2) = true -> doc_ok (prec EQPT_NMSP) (JObj t2) = true ->
+  exists y, legacy_to_yang (JObj top) = Ok y /\ yang_to_legacy y = Ok (JObj top).
+Proof.
+  intros top t2 C Hc Hn W. destruct (equipment_chains top C) as (t2' & F & G & B).
+  rewrite F in Hc. injection Hc as ->.
+  destruct C as [_ [H1 H2] H3 _ _ _ _ _ Hns].
+  exact (equipment_frame top t2 H1 H2 H3 G B Hn W Hns).
+Qed.
+
+Lemma nmap_jset : forall k v o, nmap (jset k v o) = jset k (none_to_empty v) (nmap o).
+Proof.
+  intros k v o; unfold nmap; induction o as [|[k' v'] t IH]; cbn; [reflexivity|].
+  destruct (String.eqb k k'); cbn; [reflexivity|now rewrite IH].
+Qed.
+
+(* ------------------------------------------------------------------ topology: composition *)
+Definition chainE (fs : list (json -> res json)) (e : json) : res json :=
+  fold_left (fun st f => let* x := st in f x) fs (Ok e).
+Definition passes (fs : list (json -> res json)) (es : list json) : res (list json) :=
+  fold_left (fun st f => let* l := st in mapM f l) fs (Ok es).
+
+Lemma chainE_err : forall fs s, fold_left (fun st (f : json -> res json) => let* x := st in f x) fs (Err s) = Err s.
+Proof. induction fs as [|f t IH]; intros s; cbn; [reflexivity|apply IH]. Qed.
+Lemma chainE_cons : forall f fs e, chainE (f :: fs) e = let* x := f e in chainE fs x.
+Proof. intros f fs e. unfold chainE. cbn [fold_left bind]. destruct (f e); cbn [bind]; [reflexivity|apply chainE_err]. Qed.
+Lemma passes_err : forall fs s, fold_left (fun st (f : json -> res json) => let* l := st in mapM f l) fs (Err s) = Err s.
+Proof. induction fs as [|f t IH]; intros s; cbn; [reflexivity|apply IH]. Qed.
+Lemma passes_cons : forall f fs es, passes (f :: fs) es = let* l := mapM f es in passes fs l.
+Proof. intros f fs es. unfold passes. cbn [fold_left bind]. destruct (mapM f es); cbn [bind]; [reflexivity|apply passes_err]. Qed.
+Lemma chain_err : forall fs s, fold_left (fun st (f : obj -> res obj) => let* x := st in f x) fs (Err s) = Err s.
+Proof. induction fs as [|f t IH]; intros s; cbn; [reflexivity|apply IH]. Qed.
+Lemma chain_cons : forall f fs d, chain (f :: fs) d = let* x := f d in chain fs x.
+Proof. intros f fs d. unfold chain. cbn [fold_left bind]. destruct (f d); cbn [bind]; [reflexivity|apply chain_err]. Qed.
+
+Lemma passes_of_chainE : forall fs es es',
+  Forall2 (fun e e' => chainE fs e = Ok e') es es' -> passes fs es = Ok es'.
+Proof.
+  induction fs as [|f fs IH]; intros es es' H.
+  - unfold passes; cbn. f_equal. induction H as [|e e' t t' He Ht IHt]; [reflexivity|].
+    unfold chainE in He; cbn in He. injection He as ->. now rewrite IHt.
+  - rewrite passes_cons.
+    assert (exists mids, mapM f es = Ok mids /\ Forall2 (fun e e' => chainE fs e = Ok e') mids es') as (mids & M1 & M2).
+    { induction H as [|e e' t t' He Ht (mt & I1 & I2)].
+      - exists []. split; [reflexivity|constructor].
+      - rewrite chainE_cons in He. destruct (f e) as [m|] eqn:Ef; [|discriminate]. cbn [bind] in He.
+        exists (m :: mt). split; [rewrite mapM_cons, Ef; cbn [bind]; now rewrite I1|now constructor]. }
+    rewrite M1. cbn [bind]. now apply IH.
+Qed.
+
+Lemma chain_on_elements : forall fs doc es es',
+  jget K_elements doc = Some (JArr es) -> passes (map wrapf fs) es = Ok es' ->
+  chain (map on_elements fs) doc = Ok (jset K_elements (JArr es') doc).
+Proof.
+  induction fs as [|f fs IH]; intros doc es es' Hk Hp.
+  - unfold passes in Hp; cbn in Hp. injection Hp as <-. unfold chain; cbn. now rewrite (jset_same _ _ _ Hk).
+  - cbn [map] in *. rewrite passes_cons in Hp. destruct (mapM (wrapf f) es) as [mids|] eqn:Em; [|discriminate].
+    cbn [bind] in Hp. rewrite chain_cons.
+    assert (on_elements f doc = Ok (jset K_elements (JArr mids) doc)) as ->.
+    { unfold on_elements, jreq. rewrite Hk. cbn [bind as_arr]. fold (wrapf f). now rewrite Em. }
+    cbn [bind]. rewrite (IH _ mids es' (jget_jset_same _ _ _) Hp). now rewrite jset_jset.
+Qed.
+
+(* the per-element functions of legacy_to_yang / yang_to_legacy on a topology *)
+Definition topo_elem_forth : list (obj -> res obj) :=
+  [reorder_in "operational" "raman_pumps" "frequency"; reorder_in K_params "lumped_losses" "position"; region_city_elem;
+   degree_elem; design_band_elem; with_params loss_params; with_params raman_params].
+(* without remove_null_region_city, which never fires after none_to_empty: the converted document *)
+Definition topo_elem_struct : list (obj -> res obj) :=
+  [reorder_in "operational" "raman_pumps" "frequency"; reorder_in K_params "lumped_losses" "position";
+   degree_elem; design_band_elem; with_params loss_params; with_params raman_params].
+Definition topo_elem_back : list (obj -> res obj) :=
+  [back_degree_elem; back_design_band_elem; with_params back_loss_params; with_params back_raman_params].
+Definition topo_struct : list (obj -> res obj) := map on_elements topo_elem_struct.
+
+Lemma topo_forth_eq : topo_forth = map on_elements topo_elem_forth.
+Proof. reflexivity. Qed.
+Lemma topo_back_eq : topo_back = map on_elements topo_elem_back.
+Proof. reflexivity. Qed.
+
+(* an element on which the structural conversion commutes with none_to_empty and is undone by the back chain *)
+Definition ETS (e : json) : Prop :=
+  exists e1, chainE (map wrapf topo_elem_struct) e = Ok e1 /\
+             chainE (map wrapf topo_elem_forth) (none_to_empty e) = Ok (none_to_empty e1) /\
+             chainE (map wrapf topo_elem_back) e1 = Ok e /\ e <> JNull /\ e1 <> JNull.
+
+Lemma topology_chains : forall top es,
+  jget K_elements top = Some (JArr es) -> Forall ETS es ->
+  exists t2, chain topo_struct top = Ok t2 /\ chain topo_forth (nmap top) = Ok (nmap t2) /\ chain topo_back t2 = Ok top.
+Proof.
+  intros top es Hk HF.
+  assert (exists es1, Forall2 (fun e e' => chainE (map wrapf topo_elem_struct) e = Ok e') es es1 /\
+                      Forall2 (fun e e' => chainE (map wrapf topo_elem_forth) e = Ok e') (map none_to_empty es) (map none_to_empty es1) /\
+                      Forall2 (fun e e' => chainE (map wrapf topo_elem_back) e = Ok e') es1 es /\
+                      es <> [JNull] /\ es1 <> [JNull]) as (es1 & A1 & A2 & A3 & N1 & N2).
+  { clear Hk. induction HF as [|e t He Ht IHt].
+    - exists []. repeat split; try constructor; discriminate.
+    - destruct He as (e1 & H1 & H2 & H3 & H4 & H5). destruct IHt as (t1 & I1 & I2 & I3 & _ & _).
+      exists (e1 :: t1). cbn [map]. repeat split; try (constructor; assumption);
+        intro Hc; injection Hc as Hc _; contradiction. }
+  exists (jset K_elements (JArr es1) top). split; [|split].
+  - unfold topo_struct. exact (chain_on_elements _ _ _ _ Hk (passes_of_chainE _ _ _ A1)).
+  - rewrite topo_forth_eq.
+    assert (Hk' : jget K_elements (nmap top) = Some (JArr (map none_to_empty es))).
+    { rewrite jget_nmap, Hk. cbn [option_map]. now rewrite n2e_arr. }
+    rewrite (chain_on_elements _ _ _ _ Hk' (passes_of_chainE _ _ _ A2)).
+    f_equal. now rewrite nmap_jset, n2e_arr.
+  - rewrite topo_back_eq. rewrite (chain_on_elements _ _ es1 es (jget_jset_same _ _ _) (passes_of_chainE _ _ _ A3)).
+    now rewrite jset_jset, (jset_same _ _ _ Hk).
+Qed.
+
+Theorem y2l_l2y_topology : forall top t2 es,
+  jget K_elements top = Some (JArr es) -> Forall ETS es ->
+  chain topo_struct top = Ok t2 ->
+  legacy_nulls_ok (JObj t2) = true -> doc_ok (prec TOPO_NMSP) (JObj t2) = true ->
+  remove_ns "gnpy-network-topology:" (JObj top) = JObj top ->
+  exists y, legacy_to_yang (JObj top) = Ok y /\ yang_to_legacy y = Ok (JObj top).
+Proof.
+  intros top t2 es Hk HF Hc Hn W Hns. destruct (topology_chains top es Hk HF) as (t2' & F & G & B).
+  rewrite F in Hc. injection Hc as ->.
+  apply (topology_frame top t2); try assumption. unfold jhas. now rewrite Hk.
+Qed.
+
+(* ---- one element: the steps that rewrite params, lifted from the params object ---- *)
+Definition is_roadm (ty : string) : bool := String.eqb K_roadm ty.
+Definition P2 (p : obj) : res obj :=
+  if jhas "lumped_losses" p then
+    let* l := jreq "lumped_losses" p in let* l' := reorder_keys "position" l in Ok (jset "lumped_losses" l' p)
+  else Ok p.
+Definition P4 (ty : string) (p : obj) : res obj := if is_roadm ty then degree_params p else Ok p.
+Definition P5 (ty : string) (p : obj) : res obj := if is_roadm ty then design_band_params p else Ok p.
+Definition Q1 (ty : string) (p : obj) : res obj := if is_roadm ty then back_degree_params p else Ok p.
+Definition Q2 (ty : string) (p : obj) : res obj := if is_roadm ty then back_design_band_params p else Ok p.
+Definition PF (ty : string) : list (obj -> res obj) := [P2; P4 ty; P5 ty; loss_params; raman_params].
+Definition PB (ty : string) : list (obj -> res obj) := [Q1 ty; Q2 ty; back_loss_params; back_raman_params].
+
+(* element x of type ty whose params are the object p *)
+Definition has_tp (x : obj) (ty : string) (p : obj) : Prop :=
+  jget K_type x = Some (JStr ty) /\ jget K_params x = Some (JObj p).
+Lemma has_tp_set : forall x ty p p', has_tp x ty p -> has_tp (jset K_params (JObj p') x) ty p'.
+Proof.
+  intros x ty p p' [H1 H2]. split; [rewrite jget_jset_other by reflexivity; exact H1|apply jget_jset_same].
+Qed.
+
+Lemma lift_s2 : forall x ty p p', has_tp x ty p -> P2 p = Ok p' ->
+  reorder_in K_params "lumped_losses" "position" x = Ok (jset K_params (JObj p') x).
+Proof.
+  intros x ty p p' [H1 H2] H. unfold reorder_in. rewrite H2. cbn [key_in bind]. unfold P2 in H.
+  destruct (jhas "lumped_losses" p).
+  - unfold upd_sub, jreq. rewrite H2. cbn [bind as_obj]. unfold jreq in H. now rewrite H.
+  - injection H as <-. now rewrite (jset_same _ _ _ H2).
+Qed.
+
+Lemma roadm_guard : forall x ty p, has_tp x ty p -> roadm_with_params x = Ok (is_roadm ty).
+Proof.
+  intros x ty p [H1 H2]. unfold roadm_with_params, jreq, jhas. rewrite H1, H2. cbn [bind is_str].
+  unfold is_roadm. now rewrite andb_true_r.
+Qed.
+
+Lemma lift_guarded : forall (g : obj -> res obj) x ty p p', has_tp x ty p ->
+  (if is_roadm ty then g p else Ok p) = Ok p' ->
+  (let* b := roadm_with_params x in if b then upd_sub K_params g x else Ok x) = Ok (jset K_params (JObj p') x).
+Proof.
+  intros g x ty p p' Ht H. rewrite (roadm_guard x ty p Ht). cbn [bind]. destruct Ht as [H1 H2].
+  destruct (is_roadm ty).
+  - unfold upd_sub, jreq. rewrite H2. cbn [bind as_obj]. now rewrite H.
+  - injection H as <-. now rewrite (jset_same _ _ _ H2).
+Qed.
+
+Lemma lift_with_params : forall (g : obj -> res obj) x ty p p', has_tp x ty p -> g p = Ok p' ->
+  with_params g x = Ok (jset K_params (JObj p') x).
+Proof.
+  intros g x ty p p' [H1 H2] H. unfold with_params. rewrite H2. unfold upd_sub, jreq. rewrite H2.
+  cbn [bind as_obj]. now rewrite H.
+Qed.
+
+(* the five forward steps on the params, in the order of the code; `mid` stands for remove_null_region_city,
+   which sits between them and does not look at params *)
+Lemma lift_forward : forall (mid : obj -> res obj) x ty p p1, has_tp x ty p -> chain (PF ty) p = Ok p1 ->
+  (forall p', mid (jset K_params (JObj p') x) = Ok (jset K_params (JObj p') x)) ->
+  (let* a := reorder_in K_params "lumped_losses" "position" x in
+   let* a' := mid a in
+   let* b := degree_elem a' in let* c := design_band_elem b in
+   let* d := with_params loss_params c in with_params raman_params d) = Ok (jset K_params (JObj p1) x).
+Proof.
+  intros mid x ty p p1 Ht Hc Hmid. unfold PF in Hc. rewrite ?chain_cons in Hc.
+  destruct (P2 p) as [pa|] eqn:E2; [|discriminate]. cbn [bind] in Hc. rewrite ?chain_cons in Hc.
+  destruct (P4 ty pa) as [pb|] eqn:E4; [|discriminate]. cbn [bind] in Hc. rewrite ?chain_cons in Hc.
+  destruct (P5 ty pb) as [pc|] eqn:E5; [|discriminate]. cbn [bind] in Hc. rewrite ?chain_cons in Hc.
+  destruct (loss_params pc) as [pd|] eqn:E6; [|discriminate]. cbn [bind] in Hc. rewrite ?chain_cons in Hc.
+  destruct (raman_params pd) as [pe|] eqn:E7; [|discriminate]. cbn [bind] in Hc.
+  unfold chain in Hc; cbn in Hc. injection Hc as <-.
+  rewrite (lift_s2 x ty p pa Ht E2). cbn [bind]. rewrite Hmid. cbn [bind].
+  pose proof (has_tp_set x ty p pa Ht) as Ta.
+  unfold degree_elem. rewrite (lift_guarded degree_params _ ty pa pb Ta E4). cbn [bind]. rewrite jset_jset.
+  pose proof (has_tp_set x ty p pb Ht) as Tb.
+  unfold design_band_elem. rewrite (lift_guarded design_band_params _ ty pb pc Tb E5). cbn [bind]. rewrite jset_jset.
+  pose proof (has_tp_set x ty p pc Ht) as Tc.
+  rewrite (lift_with_params loss_params _ ty pc pd Tc E6). cbn [bind]. rewrite jset_jset.
+  pose proof (has_tp_set x ty p pd Ht) as Td.
+  rewrite (lift_with_params raman_params _ ty pd pe Td E7). now rewrite jset_jset.
+Qed.
+
+Lemma lift_backward : forall x ty p1 p, has_tp x ty p1 -> chain (PB ty) p1 = Ok p ->
+  (let* a := back_degree_elem x in let* b := back_design_band_elem a in
+   let* c := with_params back_loss_params b in with_params back_raman_params c) = Ok (jset K_params (JObj p) x).
+Proof.
+  intros x ty p1 p Ht Hc. unfold PB in Hc. rewrite !chain_cons in Hc.
+  destruct (Q1 ty p1) as [pa|] eqn:E1; [|discriminate]. cbn [bind] in Hc. rewrite ?chain_cons in Hc.
+  destruct (Q2 ty pa) as [pb|] eqn:E2; [|discriminate]. cbn [bind] in Hc. rewrite ?chain_cons in Hc.
+  destruct (back_loss_params pb) as [pc|] eqn:E3; [|discriminate]. cbn [bind] in Hc. rewrite ?chain_cons in Hc.
+  destruct (back_raman_params pc) as [pd|] eqn:E4; [|discriminate]. cbn [bind] in Hc.
+  unfold chain in Hc; cbn in Hc. injection Hc as <-.
+  unfold back_degree_elem. rewrite (lift_guarded back_degree_params _ ty p1 pa Ht E1). cbn [bind].
+  pose proof (has_tp_set x ty p1 pa Ht) as Ta.
+  unfold back_design_band_elem. rewrite (lift_guarded back_design_band_params _ ty pa pb Ta E2). cbn [bind]. rewrite jset_jset.
+  pose proof (has_tp_set x ty p1 pb Ht) as Tb.
+  rewrite (lift_with_params back_loss_params _ ty pb pc Tb E3). cbn [bind]. rewrite jset_jset.
+  pose proof (has_tp_set x ty p1 pc Ht) as Tc.
+  rewrite (lift_with_params back_raman_params _ ty pc pd Tc E4). now rewrite jset_jset.
+Qed.
+
+(* ---- the steps that look at `operational` and `metadata` ---- *)
+Definition first_key_ok (key : string) (it : json) : bool :=
+  match it with
+  | JObj ((k, v) :: t) =>
+      if String.eqb k key then negb (jhas key t) && match v with JNull => false | _ => true end
+      else negb (jhas key ((k, v) :: t))
+  | JObj [] => true
+  | _ => false
+  end.
+Lemma reorder_item_first : forall key it, first_key_ok key it = true -> reorder_item key it = Ok it.
+Proof.
+  intros key [| | | | |[|[k v] t]] H; try discriminate; [reflexivity|].
+  unfold reorder_item. cbn [as_obj bind]. unfold first_key_ok in H.
+  destruct (String.eqb k key) eqn:E.
+  - apply String.eqb_eq in E. subst k. apply andb_true_iff in H as [H1 H2]. apply negb_true_iff in H1.
+    cbn [jget]. rewrite String.eqb_refl. cbn [jdel]. rewrite String.eqb_refl.
+    assert (Hn : jget key t = None) by (unfold jhas in H1; destruct (jget key t); [discriminate|reflexivity]).
+    rewrite (jdel_notin _ _ Hn). destruct v; try reflexivity. discriminate.
+  - apply negb_true_iff in H. unfold jhas in H. destruct (jget key ((k, v) :: t)); [discriminate|reflexivity].
+Qed.
+Lemma n2e_not_null : forall v, match none_to_empty v with JNull => false | _ => true end = true.
+Proof. intros [| | | |l|]; try reflexivity. destruct l as [|[] [|]]; reflexivity. Qed.
+
+Lemma first_key_ok_n2e : forall key it, first_key_ok key it = true -> first_key_ok key (none_to_empty it) = true.
+Proof.
+  intros key [| | | | |[|[k v] t]] H; try discriminate; [reflexivity|].
+  rewrite n2e_obj. cbn [nmap map fst snd]. unfold first_key_ok in *.
+  change (map (fun kv => (fst kv, none_to_empty (snd kv))) t) with (nmap t).
+  destruct (String.eqb k key).
+  - apply andb_true_iff in H as [H1 H2]. unfold nmap. rewrite jhas_map_val, H1. apply n2e_not_null.
+  - change ((k, none_to_empty v) :: nmap t) with (nmap ((k, v) :: t)). unfold nmap. now rewrite jhas_map_val.
+Qed.
+
+(* sub-object `sub` of an element: absent, null, or an object whose list `key` (if any) has its items keyed first *)
+Definition sub_list_ok (sub key first : string) (x : obj) : Prop :=
+  match jget sub x with
+  | None => True
+  | Some JNull => True
+  | Some (JObj so) => match jget key so with
+                      | None => True
+                      | Some (JArr items) => forallb (first_key_ok first) items = true
+                      | Some _ => False
+                      end
+  | Some _ => False
+  end.
+
+Lemma reorder_in_id : forall sub key first x, sub_list_ok sub key first x ->
+  (forall v, jget sub x = Some v -> v <> JNull) -> reorder_in sub key first x = Ok x.
+Proof.
+  intros sub key first x H Hnn. unfold reorder_in, sub_list_ok in *.
+  destruct (jget sub x) as [sv|] eqn:E; [|reflexivity].
+  destruct sv as [| | | | |so]; try contradiction; [now elim (Hnn JNull eq_refl)|].
+  cbn [key_in bind]. unfold jhas. destruct (jget key so) as [kv|] eqn:E2; [|reflexivity].
+  destruct kv as [| | | |items|]; try contradiction.
+  apply (upd_sub_id _ _ _ so E). unfold jreq. rewrite E2. cbn [bind]. unfold reorder_keys. cbn [as_arr bind].
+  rewrite (mapM_id (reorder_item first) items).
+  - cbn [bind]. now rewrite (jset_same _ _ _ E2).
+  - rewrite forallb_forall in H. rewrite Forall_forall. intros it Hit. apply reorder_item_first. auto.
+Qed.
+
+(* after none_to_empty: null has become [null], on which `key in ...` is False *)
+Lemma reorder_in_id_n2e : forall sub key first x, sub_list_ok sub key first x ->
+  reorder_in sub key first (nmap x) = Ok (nmap x).
+Proof.
+  intros sub key first x H. unfold sub_list_ok in H. unfold reorder_in. rewrite jget_nmap.
+  destruct (jget sub x) as [sv|] eqn:E; [|reflexivity]. cbn [option_map].
+  destruct sv as [| | | | |so]; try contradiction; [reflexivity|].
+  rewrite n2e_obj. cbn [key_in bind]. unfold jhas. rewrite jget_nmap.
+  destruct (jget key so) as [kv|] eqn:E2; [|reflexivity]. cbn [option_map].
+  destruct kv as [| | | |items|]; try contradiction.
+  assert (Hne : items <> [JNull]).
+  { intro Hc. subst. cbn in H. discriminate. }
+  assert (Es : jget sub (nmap x) = Some (JObj (nmap so))) by (rewrite jget_nmap, E; reflexivity).
+  assert (Ek : jget key (nmap so) = Some (JArr (map none_to_empty items))).
+  { rewrite jget_nmap, E2. cbn [option_map]. now rewrite n2e_arr. }
+  apply (upd_sub_id _ _ _ (nmap so) Es). unfold jreq. rewrite Ek. cbn [bind]. unfold reorder_keys. cbn [as_arr bind].
+  rewrite (mapM_id (reorder_item first) (map none_to_empty items)).
+  - cbn [bind]. now rewrite (jset_same _ _ _ Ek).
+  - rewrite forallb_forall in H. rewrite Forall_forall. intros it Hit. apply in_map_iff in Hit as (it0 & <- & Hit0).
+    apply reorder_item_first, first_key_ok_n2e. auto.
+Qed.
+
+(* metadata: absent, or an object whose location is absent, null or an object *)
+Definition md_ok (x : obj) : Prop :=
+  match jget "metadata" x with
+  | None => True
+  | Some (JObj mo) => match jget "location" mo with
+                      | None | Some JNull | Some (JObj _) => True
+                      | Some _ => False
+                      end
+  | Some _ => False
+  end.
+
+Lemma null_to_empty_str_n2e : forall name lo, null_to_empty_str name (nmap lo) = nmap lo.
+Proof.
+  intros name lo. unfold null_to_empty_str. rewrite jget_nmap. destruct (jget name lo) as [v|]; [|reflexivity].
+  cbn [option_map]. destruct v as [| | | |l|]; try reflexivity. cbn. destruct l as [|[] [|]]; reflexivity.
+Qed.
+
+Lemma region_city_id_n2e : forall x y, md_ok x -> jget "metadata" y = jget "metadata" (nmap x) -> region_city_elem y = Ok y.
+Proof.
+  intros x y H Hy. unfold md_ok in H. unfold region_city_elem. rewrite Hy, jget_nmap.
+  destruct (jget "metadata" x) as [md|] eqn:E; [|reflexivity]. cbn [option_map].
+  destruct md as [| | | | |mo]; try contradiction. rewrite n2e_obj. cbn [key_in bind]. unfold jhas. rewrite jget_nmap.
+  destruct (jget "location" mo) as [loc|] eqn:E2; [|reflexivity]. cbn [option_map].
+  assert (Em : jget "metadata" y = Some (JObj (nmap mo))) by (rewrite Hy, jget_nmap, E; reflexivity).
+  destruct loc as [| | | | |lo]; try contradiction.
+  - (* null -> [null] *)
+    apply (upd_sub_id _ _ _ (nmap mo) Em). unfold jreq. rewrite jget_nmap, E2. reflexivity.
+  - apply (upd_sub_id _ _ _ (nmap mo) Em). unfold jreq. rewrite jget_nmap, E2. cbn [option_map bind]. rewrite n2e_obj.
+    rewrite !null_to_empty_str_n2e.
+    assert (El : jget "location" (nmap mo) = Some (JObj (nmap lo))) by (rewrite jget_nmap, E2; reflexivity).
+    now rewrite (jset_same _ _ _ El).
+Qed.
+
+Lemma chainE_wrapf : forall fs x, chainE (map wrapf fs) (JObj x) = let* y := chain fs x in Ok (JObj y).
+Proof.
+  induction fs as [|f fs IH]; intros x; [reflexivity|].
+  cbn [map]. rewrite chainE_cons, chain_cons. unfold wrapf at 1. cbn [as_obj bind].
+  destruct (f x) as [y|]; cbn [bind]; [apply IH|reflexivity].
+Qed.
+
+(* the params pipeline commutes with none_to_empty and is undone by the back pipeline *)
+Definition PT (ty : string) (p p1 : obj) : Prop :=
+  chain (PF ty) p = Ok p1 /\ chain (PF ty) (nmap p) = Ok (nmap p1) /\ chain (PB ty) p1 = Ok p.
+
+Definition op_ok (eo : obj) : Prop :=
+  sub_list_ok "operational" "raman_pumps" "frequency" eo /\ (forall v, jget "operational" eo = Some v -> v <> JNull).
+
+Theorem ETS_of_params : forall eo ty p p1,
+  has_tp eo ty p -> op_ok eo -> md_ok eo -> PT ty p p1 -> ETS (JObj eo).
+Proof.
+  intros eo ty p p1 Ht [Hop Hnn] Hmd (F1 & F2 & B).
+  exists (JObj (jset K_params (JObj p1) eo)). repeat split; try discriminate.
+  - rewrite chainE_wrapf. unfold topo_elem_struct. rewrite chain_cons.
+    rewrite (reorder_in_id _ _ _ eo Hop Hnn). cbn [bind].
+    pose proof (lift_forward (fun a => Ok a) eo ty p p1 Ht F1 (fun _ => eq_refl)) as L. cbn [bind] in L.
+    rewrite !chain_cons. unfold chain at 1; cbn [fold_left].
+    destruct (reorder_in K_params "lumped_losses" "position" eo) as [a|]; [|discriminate]. cbn [bind] in *.
+    destruct (degree_elem a) as [b|]; [|discriminate]. cbn [bind] in *.
+    destruct (design_band_elem b) as [c|]; [|discriminate]. cbn [bind] in *.
+    destruct (with_params loss_params c) as [d|]; [|discriminate]. cbn [bind] in *.
+    rewrite L. reflexivity.
+  - rewrite n2e_obj, chainE_wrapf. unfold topo_elem_forth. rewrite chain_cons.
+    rewrite (reorder_in_id_n2e _ _ _ eo Hop). cbn [bind].
+    assert (Htn : has_tp (nmap eo) ty (nmap p)).
+    { destruct Ht as [H1 H2]. split; rewrite jget_nmap; [rewrite H1|rewrite H2]; reflexivity. }
+    assert (Hmid : forall p', region_city_elem (jset K_params (JObj p') (nmap eo)) = Ok (jset K_params (JObj p') (nmap eo))).
+    { intros p'. apply (region_city_id_n2e eo); [exact Hmd|]. now rewrite jget_jset_other. }
+    pose proof (lift_forward region_city_elem (nmap eo) ty (nmap p) (nmap p1) Htn F2 Hmid) as L.
+    rewrite !chain_cons. unfold chain at 1; cbn [fold_left].
+    destruct (reorder_in K_params "lumped_losses" "position" (nmap eo)) as [a|]; [|discriminate]. cbn [bind] in *.
+    destruct (region_city_elem a) as [a'|]; [|discriminate]. cbn [bind] in *.
+    destruct (degree_elem a') as [b|]; [|discriminate]. cbn [bind] in *.
+    destruct (design_band_elem b) as [c|]; [|discriminate]. cbn [bind] in *.
+    destruct (with_params loss_params c) as [d|]; [|discriminate]. cbn [bind] in *.
+    rewrite L. cbn [bind]. now rewrite n2e_obj, nmap_jset, n2e_obj.
+  - rewrite chainE_wrapf. unfold topo_elem_back.
+    pose proof (lift_backward (jset K_params (JObj p1) eo) ty p1 p (has_tp_set eo ty p p1 Ht) B) as L.
+    rewrite !chain_cons. unfold chain at 1; cbn [fold_left].
+    destruct (back_degree_elem (jset K_params (JObj p1) eo)) as [a|]; [|discriminate]. cbn [bind] in *.
+    destruct (back_design_band_elem a) as [b|]; [|discriminate]. cbn [bind] in *.
+    destruct (with_params back_loss_params b) as [c|]; [|discriminate]. cbn [bind] in *.
+    rewrite L. cbn [bind]. destruct Ht as [_ H2]. now rewrite jset_jset, (jset_same _ _ _ H2).
+Qed.
+
+(* an element without params (Edfa, Transceiver, Fused ...) *)
+Lemma no_params_steps : forall x ty, jget K_type x = Some (JStr ty) -> jget K_params x = None ->
+  reorder_in K_params "lumped_losses" "position" x = Ok x /\ degree_elem x = Ok x /\ design_band_elem x = Ok x /\
+  with_params loss_params x = Ok x /\ with_params raman_params x = Ok x /\
+  back_degree_elem x = Ok x /\ back_design_band_elem x = Ok x /\
+  with_params back_loss_params x = Ok x /\ with_params back_raman_params x = Ok x.
+Proof.
+  intros x ty H1 H2.
+  assert (G : roadm_with_params x = Ok false).
+  { unfold roadm_with_params, jreq, jhas. rewrite H1, H2. cbn [bind]. now rewrite andb_false_r. }
+  unfold reorder_in, degree_elem, design_band_elem, back_degree_elem, back_design_band_elem, with_params.
+  rewrite H2, G. cbn [bind]. repeat split; reflexivity.
+Qed.
+
+Theorem ETS_no_params : forall eo ty,
+  jget K_type eo = Some (JStr ty) -> jget K_params eo = None -> op_ok eo -> md_ok eo -> ETS (JObj eo).
+Proof.
+  intros eo ty H1 H2 [Hop Hnn] Hmd. exists (JObj eo). repeat split; try discriminate.
+  - rewrite chainE_wrapf. unfold topo_elem_struct. rewrite !chain_cons.
+    destruct (no_params_steps eo ty H1 H2) as (A2 & A4 & A5 & A6 & A7 & _).
+    rewrite (reorder_in_id _ _ _ eo Hop Hnn). cbn [bind]. rewrite chain_cons, A2. cbn [bind]. rewrite chain_cons, A4. cbn [bind].
+    rewrite chain_cons, A5. cbn [bind]. rewrite chain_cons, A6. cbn [bind]. rewrite chain_cons, A7. reflexivity.
+  - rewrite n2e_obj, chainE_wrapf. unfold topo_elem_forth. rewrite !chain_cons.
+    assert (H1n : jget K_type (nmap eo) = Some (JStr ty)) by (rewrite jget_nmap, H1; reflexivity).
+    assert (H2n : jget K_params (nmap eo) = None) by (rewrite jget_nmap, H2; reflexivity).
+    destruct (no_params_steps (nmap eo) ty H1n H2n) as (A2 & A4 & A5 & A6 & A7 & _).
+    rewrite (reorder_in_id_n2e _ _ _ eo Hop). cbn [bind]. rewrite chain_cons, A2. cbn [bind]. rewrite chain_cons.
+    rewrite (region_city_id_n2e eo (nmap eo) Hmd eq_refl). cbn [bind]. rewrite chain_cons, A4. cbn [bind].
+    rewrite chain_cons, A5. cbn [bind]. rewrite chain_cons, A6. cbn [bind]. rewrite chain_cons, A7. reflexivity.
+  - rewrite chainE_wrapf. unfold topo_elem_back. rewrite !chain_cons.
+    destruct (no_params_steps eo ty H1 H2) as (_ & _ & _ & _ & _ & B1 & B2 & B3 & B4).
+    rewrite B1. cbn [bind]. rewrite chain_cons, B2. cbn [bind]. rewrite chain_cons, B3. cbn [bind].
+    rewrite chain_cons, B4. reflexivity.
+Qed.
+
+(* ---- params of a fibre (any non-ROADM element): optional per-frequency loss block, optional Raman block ---- *)
+Definition lblk (ol : option (list json * list json)) : obj :=
+  match ol with
+  | Some (fl, vl) => [(K_loss, JObj [("frequency"%string, JArr fl); ("value"%string, JArr vl)])]
+  | None => []
+  end.
+Definition lout (ol : option (list json * list json)) : obj :=
+  match ol with
+  | Some (fl, vl) => [(K_losspf, JArr (zip2 "frequency" "loss_coef_value" fl vl))]
+  | None => []
+  end.
+Definition l_ok (ol : option (list json * list json)) : Prop :=
+  match ol with Some (fl, vl) => length fl = length vl /\ vl <> [] /\ fl <> [JNull] /\ vl <> [JNull] | None => True end.
+Definition rblk (orr : option (json * list json * list json)) : obj :=
+  match orr with
+  | Some (rf, gl, fl) => [(K_raman, JObj [("reference_frequency"%string, rf); ("g0"%string, JArr gl);
+                                           ("frequency_offset"%string, JArr fl)])]
+  | None => []
+  end.
+Definition rout (orr : option (json * list json * list json)) : obj :=
+  match orr with
+  | Some (rf, gl, fl) => [(K_raman, JObj [("reference_frequency"%string, rf);
+                                           ("g0_per_frequency"%string, JArr (zip2 "frequency_offset" "g0" fl gl))])]
+  | None => []
+  end.
+Definition r_ok (orr : option (json * list json * list json)) : Prop :=
+  match orr with Some (rf, gl, fl) => length fl = length gl /\ fl <> [] /\ fl <> [JNull] /\ gl <> [JNull] | None => True end.
+
+Definition not_obj (o : option json) : Prop := forall lc, o <> Some (JObj lc).
+
+Lemma loss_fwd : forall a b ol, l_ok ol ->
+  jget K_losspf a = None -> jget K_losspf b = None ->
+  match ol with Some _ => jget K_loss a = None /\ jget K_loss b = None | None => not_obj (jget K_loss (a ++ b)) end ->
+  loss_params (a ++ lblk ol ++ b) = Ok (a ++ b ++ lout ol).
+Proof.
+  intros a b [[fl vl]|] Hok H1 H2 H3; cbn [lblk lout].
+  - destruct H3 as [Ha Hb]. destruct Hok as (Hlen & Hne & _ & _).
+    destruct vl as [|v0 vt]; [now elim Hne|]. destruct fl as [|f0 ft]; [discriminate|].
+    unfold loss_params. rewrite jget_app, Ha. cbn [app jget]. rewrite String.eqb_refl.
+    cbn [jget String.eqb Ascii.eqb Bool.eqb truthy as_iter bind].
+    rewrite jdel_app, (jdel_notin _ _ Ha). cbn [jdel]. rewrite String.eqb_refl, (jdel_notin _ _ Hb).
+    rewrite jset_notin by (rewrite jget_app, H1; exact H2). now rewrite <- app_assoc.
+  - cbn [app]. rewrite app_nil_r. unfold loss_params. unfold not_obj in H3.
+    destruct (jget K_loss (a ++ b)) as [[| | | | |lc]|]; try reflexivity. now elim (H3 lc).
+Qed.
+
+Lemma back_loss_fwd : forall a b ol, l_ok ol ->
+  jget K_losspf a = None -> jget K_losspf b = None ->
+  match ol with Some _ => jget K_loss a = None /\ jget K_loss b = None | None => True end ->
+  back_loss_params (a ++ lout ol ++ b) = Ok (a ++ b ++ lblk ol).
+Proof.
+  intros a b [[fl vl]|] Hok H1 H2 Hab; cbn [lblk lout].
+  - destruct Hab as [Ha Hb]. destruct Hok as (Hlen & Hne & _ & _).
+    pose proof (zip2_nonempty "frequency" "loss_coef_value" fl vl Hlen Hne) as Hz.
+    unfold back_loss_params. rewrite jget_app, H1. cbn [app jget]. rewrite String.eqb_refl.
+    rewrite jdel_app, (jdel_notin _ _ H1). cbn [jdel]. rewrite String.eqb_refl, (jdel_notin _ _ H2).
+    assert (Ht : truthy (JArr (zip2 "frequency" "loss_coef_value" fl vl)) = true)
+      by (destruct (zip2 "frequency" "loss_coef_value" fl vl); [now elim Hz|reflexivity]).
+    rewrite Ht. cbn [as_arr bind].
+    rewrite (pluck_zip2_fst _ _ _ _ Hlen). cbn [bind].
+    rewrite (pluck_zip2_snd "frequency" "loss_coef_value" _ _ eq_refl Hlen). cbn [bind].
+    rewrite jset_notin by (rewrite jget_app, Ha; exact Hb). now rewrite <- app_assoc.
+  - cbn [app]. rewrite app_nil_r. unfold back_loss_params. now rewrite jget_app, H1, H2.
+Qed.
+
+Lemma raman_fwd : forall a b orr, r_ok orr -> jget K_raman a = None -> jget K_raman b = None ->
+  raman_params (a ++ rblk orr ++ b) = Ok (a ++ b ++ rout orr).
+Proof.
+  intros a b [[[rf gl] fl]|] Hok Ha Hb; cbn [rblk rout].
+  - destruct Hok as (Hlen & Hne & _ & _).
+    destruct fl as [|f0 ft]; [now elim Hne|]. destruct gl as [|g0 gt]; [discriminate|].
+    unfold raman_params. rewrite jget_app, Ha. cbn [app jget]. rewrite String.eqb_refl.
+    cbn [key_in jhas jget String.eqb Ascii.eqb Bool.eqb bind as_obj opt_list truthy jreq as_iter].
+    rewrite jdel_app, (jdel_notin _ _ Ha). cbn [jdel]. rewrite String.eqb_refl, (jdel_notin _ _ Hb).
+    rewrite jset_notin by (rewrite jget_app, Ha; exact Hb). now rewrite <- app_assoc.
+  - cbn [app]. rewrite app_nil_r. unfold raman_params. now rewrite jget_app, Ha, Hb.
+Qed.
+
+Lemma back_raman_fwd : forall a b orr, r_ok orr -> jget K_raman a = None -> jget K_raman b = None ->
+  back_raman_params (a ++ rout orr ++ b) = Ok (a ++ b ++ rblk orr).
+Proof.
+  intros a b [[[rf gl] fl]|] Hok Ha Hb; cbn [rblk rout].
+  - destruct Hok as (Hlen & Hne & _ & _).
+    destruct fl as [|f0 ft]; [now elim Hne|]. destruct gl as [|g0 gt]; [discriminate|].
+    unfold back_raman_params. rewrite jget_app, Ha. cbn [app jget]. rewrite String.eqb_refl.
+    cbn [key_in jhas jget String.eqb Ascii.eqb Bool.eqb bind as_obj jreq as_arr zip2].
+    change (JObj [("frequency_offset"%string, f0); ("g0"%string, g0)] :: zip2 "frequency_offset" "g0" ft gt)
+      with (zip2 "frequency_offset" "g0" (f0 :: ft) (g0 :: gt)).
+    rewrite (pluck_zip2_snd "frequency_offset" "g0" _ _ eq_refl Hlen). cbn [bind].
+    rewrite (pluck_zip2_fst _ _ _ _ Hlen). cbn [bind].
+    rewrite jdel_app, (jdel_notin _ _ Ha). cbn [jdel]. rewrite String.eqb_refl, (jdel_notin _ _ Hb).
+    rewrite jset_notin by (rewrite jget_app, Ha; exact Hb). now rewrite <- app_assoc.
+  - cbn [app]. rewrite app_nil_r. unfold back_raman_params. now rewrite jget_app, Ha, Hb.
+Qed.
+
+Definition lumped_ok (p : obj) : Prop :=
+  match jget "lumped_losses" p with
+  | None => True
+  | Some (JArr items) => forallb (first_key_ok "position") items = true
+  | Some _ => False
+  end.
+Lemma P2_id : forall p, lumped_ok p -> P2 p = Ok p.
+Proof.
+  intros p H. unfold P2, lumped_ok, jhas, jreq in *. destruct (jget "lumped_losses" p) as [l|] eqn:E; [|reflexivity].
+  destruct l as [| | | |items|]; try contradiction. cbn [bind]. unfold reorder_keys. cbn [as_arr bind].
+  rewrite (mapM_id (reorder_item "position") items).
+  - cbn [bind]. now rewrite (jset_same _ _ _ E).
+  - rewrite forallb_forall in H. rewrite Forall_forall. intros it Hit. apply reorder_item_first. auto.
+Qed.
+Lemma lumped_ok_n2e : forall p, lumped_ok p -> lumped_ok (nmap p).
+Proof.
+  intros p H. unfold lumped_ok in *. rewrite jget_nmap. destruct (jget "lumped_losses" p) as [l|]; [|exact I].
+  cbn [option_map]. destruct l as [| | | |items|]; try contradiction.
+  assert (Hne : items <> [JNull]) by (intro Hc; subst; cbn in H; discriminate).
+  rewrite n2e_arr by exact Hne. rewrite forallb_forall in *. intros it Hit.
+  apply in_map_iff in Hit as (it0 & <- & Hit0). apply first_key_ok_n2e. auto.
+Qed.
+
+Lemma map_n2e_zip2 : forall k1 k2 a b,
+  map none_to_empty (zip2 k1 k2 a b) = zip2 k1 k2 (map none_to_empty a) (map none_to_empty b).
+Proof. intros k1 k2 a; induction a as [|x t IH]; intros [|y u]; cbn; try reflexivity. now rewrite IH. Qed.
+Lemma zip2_not_single_null : forall k1 k2 a b, zip2 k1 k2 a b <> [JNull].
+Proof. intros k1 k2 [|x t] [|y u]; cbn; discriminate. Qed.
+
+Definition oln (ol : option (list json * list json)) : option (list json * list json) :=
+  match ol with Some (fl, vl) => Some (map none_to_empty fl, map none_to_empty vl) | None => None end.
+Definition orn (orr : option (json * list json * list json)) : option (json * list json * list json) :=
+  match orr with Some (rf, gl, fl) => Some (none_to_empty rf, map none_to_empty gl, map none_to_empty fl) | None => None end.
+
+Lemma map_n2e_not_single_null : forall l, map none_to_empty l <> [JNull].
+Proof. intros [|x [|y t]]; cbn; try discriminate. intro H. injection H as H. pose proof (n2e_not_null x). now rewrite H in *. Qed.
+
+Lemma l_ok_n : forall ol, l_ok ol -> l_ok (oln ol).
+Proof.
+  intros [[fl vl]|] H; [|exact I]. destruct H as (H1 & H2 & H3 & H4). cbn. rewrite !map_length.
+  repeat split; try assumption; try apply map_n2e_not_single_null. destruct vl; [now elim H2|discriminate].
+Qed.
+Lemma r_ok_n : forall orr, r_ok orr -> r_ok (orn orr).
+Proof.
+  intros [[[rf gl] fl]|] H; [|exact I]. destruct H as (H1 & H2 & H3 & H4). cbn. rewrite !map_length.
+  repeat split; try assumption; try apply map_n2e_not_single_null. destruct fl; [now elim H2|discriminate].
+Qed.
+Lemma nmap_lblk : forall ol, l_ok ol -> nmap (lblk ol) = lblk (oln ol).
+Proof.
+  intros [[fl vl]|] H; [|reflexivity]. destruct H as (_ & _ & H3 & H4). cbn [lblk oln nmap map fst snd].
+  rewrite n2e_obj. cbn [nmap map fst snd]. now rewrite !n2e_arr by assumption.
+Qed.
+Lemma nmap_lout : forall ol, nmap (lout ol) = lout (oln ol).
+Proof.
+  intros [[fl vl]|]; [|reflexivity]. cbn [lout oln nmap map fst snd].
+  rewrite n2e_arr by apply zip2_not_single_null. now rewrite map_n2e_zip2.
+Qed.
+Lemma nmap_rblk : forall orr, r_ok orr -> nmap (rblk orr) = rblk (orn orr).
+Proof.
+  intros [[[rf gl] fl]|] H; [|reflexivity]. destruct H as (_ & _ & H3 & H4). cbn [rblk orn nmap map fst snd].
+  rewrite n2e_obj. cbn [nmap map fst snd]. now rewrite !n2e_arr by assumption.
+Qed.
+Lemma nmap_rout : forall orr, nmap (rout orr) = rout (orn orr).
+Proof.
+  intros [[[rf gl] fl]|]; [|reflexivity]. cbn [rout orn nmap map fst snd].
+  rewrite n2e_obj. cbn [nmap map fst snd]. rewrite n2e_arr by apply zip2_not_single_null. now rewrite map_n2e_zip2.
+Qed.
+
+Lemma jget_lblk_other : forall k ol, String.eqb k K_loss = false -> jget k (lblk ol) = None.
+Proof. intros k [[fl vl]|] H; cbn; [now rewrite H|reflexivity]. Qed.
+Lemma jget_lout_other : forall k ol, String.eqb k K_losspf = false -> jget k (lout ol) = None.
+Proof. intros k [[fl vl]|] H; cbn; [now rewrite H|reflexivity]. Qed.
+Lemma jget_rblk_other : forall k orr, String.eqb k K_raman = false -> jget k (rblk orr) = None.
+Proof. intros k [[[rf gl] fl]|] H; cbn; [now rewrite H|reflexivity]. Qed.
+Lemma jget_rout_other : forall k orr, String.eqb k K_raman = false -> jget k (rout orr) = None.
+Proof. intros k [[[rf gl] fl]|] H; cbn; [now rewrite H|reflexivity]. Qed.
+
+(* the params of a non-ROADM element in canonical shape *)
+Record fiber_params_ok (o : obj) (ol : option (list json * list json)) (orr : option (json * list json * list json)) : Prop := {
+  fp_lumped : lumped_ok o;
+  fp_losspf : jget K_losspf o = None;
+  fp_raman : jget K_raman o = None;
+  fp_loss : match ol with Some _ => jget K_loss o = None | None => not_obj (jget K_loss o) end;
+  fp_l : l_ok ol;
+  fp_r : r_ok orr
+}.
+
+Lemma fiber_forward : forall ty o ol orr, is_roadm ty = false -> fiber_params_ok o ol orr ->
+  chain (PF ty) (o ++ lblk ol ++ rblk orr) = Ok (o ++ lout ol ++ rout orr).
+Proof.
+  intros ty o ol orr Hty [Hl H1 H2 H3 H4 H5]. unfold PF. rewrite chain_cons.
+  assert (Hlum : lumped_ok (o ++ lblk ol ++ rblk orr)).
+  { unfold lumped_ok in *. now rewrite !jget_app, jget_lblk_other, jget_rblk_other by reflexivity;
+      destruct (jget "lumped_losses" o). }
+  rewrite (P2_id _ Hlum). cbn [bind]. rewrite chain_cons. unfold P4, P5. rewrite Hty. cbn [bind].
+  rewrite chain_cons. cbn [bind]. rewrite chain_cons.
+  rewrite (loss_fwd o (rblk orr) ol H4 H1 (jget_rblk_other K_losspf _ eq_refl)).
+  - cbn [bind]. rewrite chain_cons.
+    rewrite (raman_fwd o (lout ol) orr H5 H2 (jget_lout_other K_raman _ eq_refl)). reflexivity.
+  - destruct ol; [split; [exact H3|apply jget_rblk_other; reflexivity]|].
+    unfold not_obj in *. rewrite jget_app. destruct (jget K_loss o); [exact H3|].
+    rewrite jget_rblk_other by reflexivity. discriminate.
+Qed.
+
+Lemma fiber_backward : forall ty o ol orr, is_roadm ty = false -> fiber_params_ok o ol orr ->
+  chain (PB ty) (o ++ lout ol ++ rout orr) = Ok (o ++ lblk ol ++ rblk orr).
+Proof.
+  intros ty o ol orr Hty [Hl H1 H2 H3 H4 H5]. unfold PB. rewrite chain_cons. unfold Q1, Q2. rewrite Hty. cbn [bind].
+  rewrite chain_cons. cbn [bind]. rewrite chain_cons.
+  rewrite (back_loss_fwd o (rout orr) ol H4 H1 (jget_rout_other K_losspf _ eq_refl)).
+  - cbn [bind]. rewrite chain_cons.
+    rewrite (back_raman_fwd o (lblk ol) orr H5 H2 (jget_lblk_other K_raman _ eq_refl)). reflexivity.
+  - destruct ol; [split; [exact H3|apply jget_rout_other; reflexivity]|exact I].
+Qed.
+
+Lemma fiber_params_ok_n : forall o ol orr, fiber_params_ok o ol orr -> fiber_params_ok (nmap o) (oln ol) (orn orr).
+Proof.
+  intros o ol orr [Hl H1 H2 H3 H4 H5]. constructor.
+  - now apply lumped_ok_n2e.
+  - now apply jget_nmap_none.
+  - now apply jget_nmap_none.
+  - destruct ol as [[fl vl]|]; cbn [oln]; [now apply jget_nmap_none|].
+    unfold not_obj in *. intros lc. rewrite jget_nmap. destruct (jget K_loss o) as [v|]; [|discriminate].
+    cbn [option_map]. destruct v as [| | | |l|lc0]; try discriminate.
+    + cbn. destruct l as [|[] [|]]; discriminate.
+    + now elim (H3 lc0).
+  - now apply l_ok_n.
+  - now apply r_ok_n.
+Qed.
+
+Theorem PT_fiber : forall ty o ol orr, is_roadm ty = false -> fiber_params_ok o ol orr ->
+  PT ty (o ++ lblk ol ++ rblk orr) (o ++ lout ol ++ rout orr).
+Proof.
+  intros ty o ol orr Hty H. split; [|split].
+  - now apply fiber_forward.
+  - rewrite !nmap_app, nmap_lblk, nmap_rblk, nmap_lout, nmap_rout by (destruct H; assumption).
+    apply fiber_forward; [exact Hty|now apply fiber_params_ok_n].
+  - now apply fiber_backward.
+Qed.
+
+(* ---- params of a ROADM: per-degree power targets, then per-degree design bands ---- *)
+Definition dblocks (o1 o2 o3 : option obj) : obj := blk E1 o1 ++ blk E2 o2 ++ blk E3 o3.
+Definition dents (o1 o2 o3 : option obj) : list json := ents E1 o1 ++ ents E2 o2 ++ ents E3 o3.
+Definition dout (o1 o2 o3 : option obj) : obj :=
+  match dents o1 o2 o3 with [] => [] | nt => [(K_pdt, JArr nt)] end.
+Definition bblk (ob : option obj) : obj := match ob with Some items => [(K_pddb, JObj items)] | None => [] end.
+Definition bout (ob : option obj) : obj :=
+  match ob with Some items => [(K_pddbt, JArr (map db_entry items))] | None => [] end.
+
+Lemma degree_fwd : forall a b o1 o2 o3,
+  jget E1 a = None -> jget E2 a = None -> jget E3 a = None -> jget K_pdt a = None ->
+  jget E1 b = None -> jget E2 b = None -> jget E3 b = None -> jget K_pdt b = None ->
+  items_ok o1 -> items_ok o2 -> items_ok o3 ->
+  degree_params (a ++ dblocks o1 o2 o3 ++ b) = Ok (a ++ b ++ dout o1 o2 o3).
+Proof.
+  intros a b o1 o2 o3 A1 A2 A3 A4 B1 B2 B3 B4 K1 K2 K3. unfold dblocks, dout, dents.
+  unfold degree_params, eq_types. cbn [fold_left]. fold E1 E2 E3. rewrite <- !app_assoc.
+  rewrite (degree_step_blk E1 a (blk E2 o2 ++ blk E3 o3 ++ b) o1 [] A1)
+    by (try exact K1; rewrite !jget_app, !jget_blk_other by reflexivity; exact B1).
+  rewrite (degree_step_blk E2 a (blk E3 o3 ++ b) o2 _ A2)
+    by (try exact K2; rewrite jget_app, jget_blk_other by reflexivity; exact B2).
+  rewrite (degree_step_blk E3 a b o3 _ A3) by (try exact K3; exact B3).
+  cbn [bind app]. rewrite <- (app_assoc (ents E1 o1)).
+  destruct (ents E1 o1 ++ ents E2 o2 ++ ents E3 o3) as [|t0 tr]; [now rewrite app_nil_r|].
+  rewrite jset_notin by (rewrite jget_app, A4; exact B4). now rewrite <- app_assoc.
+Qed.
+
+Lemma back_degree_fwd : forall a b o1 o2 o3,
+  jget E1 a = None -> jget E2 a = None -> jget E3 a = None -> jget K_pdt a = None ->
+  jget E1 b = None -> jget E2 b = None -> jget E3 b = None -> jget K_pdt b = None ->
+  items_ok o1 -> items_ok o2 -> items_ok o3 ->
+  back_degree_params (a ++ dout o1 o2 o3 ++ b) = Ok (a ++ b ++ dblocks o1 o2 o3).
+Proof.
+  intros a b o1 o2 o3 A1 A2 A3 A4 B1 B2 B3 B4 K1 K2 K3. unfold dblocks, dout, dents.
+  destruct (ents E1 o1 ++ ents E2 o2 ++ ents E3 o3) as [|t0 tr] eqn:En.
+  - assert (o1 = None /\ o2 = None /\ o3 = None) as (-> & -> & ->).
+    { destruct o1 as [[|? ?]|]; [destruct K1; congruence|discriminate|].
+      destruct o2 as [[|? ?]|]; [destruct K2; congruence|discriminate|].
+      destruct o3 as [[|? ?]|]; [destruct K3; congruence|discriminate|]. auto. }
+    cbn [blk app]. rewrite app_nil_r. unfold back_degree_params. now rewrite jget_app, A4, B4.
+  - rewrite <- En. unfold back_degree_params. rewrite jget_app, A4. cbn [app jget]. rewrite String.eqb_refl.
+    rewrite jdel_app, (jdel_notin _ _ A4). cbn [jdel]. rewrite String.eqb_refl, (jdel_notin _ _ B4).
+    assert (Ht : truthy (JArr (ents E1 o1 ++ ents E2 o2 ++ ents E3 o3)) = true) by now rewrite En.
+    rewrite Ht. cbn [as_arr bind].
+    assert (In1 : In E1 eq_types) by (now left).
+    assert (In2 : In E2 eq_types) by (right; now left).
+    assert (In3 : In E3 eq_types) by (right; right; now left).
+    rewrite !fold_left_app.
+    rewrite (fold_upsert_block E1 In1 o1 (a ++ b)) by (try exact K1; rewrite jget_app, A1; exact B1).
+    rewrite (fold_upsert_block E2 In2 o2 _)
+      by (try exact K2; rewrite !jget_app, A2, B2; now apply jget_blk_other).
+    rewrite (fold_upsert_block E3 In3 o3 _)
+      by (try exact K3; rewrite !jget_app, A3, B3, !jget_blk_other by reflexivity; reflexivity).
+    now rewrite <- !app_assoc.
+Qed.
+
+Lemma design_fwd : forall a b ob, items_ok ob ->
+  jget K_pddb a = None -> jget K_pddbt a = None -> jget K_pddb b = None -> jget K_pddbt b = None ->
+  design_band_params (a ++ bblk ob ++ b) = Ok (a ++ b ++ bout ob).
+Proof.
+  intros a b [items|] Hok A1 A2 B1 B2; cbn [bblk bout].
+  - destruct Hok as [Hne _]. unfold design_band_params. rewrite jget_app, A1. cbn [app jget]. rewrite String.eqb_refl.
+    assert (Ht : truthy (JObj items) = true) by (destruct items; [now elim Hne|reflexivity]). rewrite Ht.
+    rewrite jdel_app, (jdel_notin _ _ A1). cbn [jdel]. rewrite String.eqb_refl, (jdel_notin _ _ B1).
+    rewrite jset_notin by (rewrite jget_app, A2; exact B2). now rewrite <- app_assoc.
+  - cbn [app]. rewrite app_nil_r. unfold design_band_params. now rewrite jget_app, A1, B1.
+Qed.
+
+Lemma back_design_fwd : forall a b ob, items_ok ob ->
+  jget K_pddb a = None -> jget K_pddbt a = None -> jget K_pddb b = None -> jget K_pddbt b = None ->
+  back_design_band_params (a ++ bout ob ++ b) = Ok (a ++ b ++ bblk ob).
+Proof.
+  intros a b [items|] Hok A1 A2 B1 B2; cbn [bblk bout].
+  - destruct Hok as [Hne Hnd]. unfold back_design_band_params. rewrite jget_app, A2. cbn [app jget]. rewrite String.eqb_refl.
+    rewrite jdel_app, (jdel_notin _ _ A2). cbn [jdel]. rewrite String.eqb_refl, (jdel_notin _ _ B2).
+    assert (Ht : truthy (JArr (map db_entry items)) = true) by (destruct items; [now elim Hne|reflexivity]).
+    rewrite Ht. cbn [as_arr bind]. rewrite (fold_back_db items []) by exact Hnd. cbn [bind app].
+    destruct items; [now elim Hne|]. rewrite jset_notin by (rewrite jget_app, A1; exact B1). now rewrite <- app_assoc.
+  - cbn [app]. rewrite app_nil_r. unfold back_design_band_params. now rewrite jget_app, A2, B2.
+Qed.
+
+Lemma loss_params_id : forall p, not_obj (jget K_loss p) -> loss_params p = Ok p.
+Proof. intros p H. unfold loss_params, not_obj in *. destruct (jget K_loss p) as [[| | | | |lc]|]; try reflexivity. now elim (H lc). Qed.
+Lemma raman_params_id : forall p, jget K_raman p = None -> raman_params p = Ok p.
+Proof. intros p H. unfold raman_params. now rewrite H. Qed.
+Lemma back_loss_params_id : forall p, jget K_losspf p = None -> back_loss_params p = Ok p.
+Proof. intros p H. unfold back_loss_params. now rewrite H. Qed.
+Lemma back_raman_params_id : forall p, jget K_raman p = None -> back_raman_params p = Ok p.
+Proof. intros p H. unfold back_raman_params. now rewrite H. Qed.
+
+Definition onm (oo : option obj) : option obj := option_map nmap oo.
+Lemma items_ok_n : forall oo, items_ok oo -> items_ok (onm oo).
+Proof.
+  intros [items|] H; [|exact I]. destruct H as [H1 H2]. cbn. split; [destruct items; [now elim H1|discriminate]|].
+  now rewrite keys_nmap.
+Qed.
+Lemma nmap_blk : forall E oo, nmap (blk E oo) = blk E (onm oo).
+Proof. intros E [items|]; reflexivity. Qed.
+Lemma map_n2e_ents : forall E oo, map none_to_empty (ents E oo) = ents E (onm oo).
+Proof.
+  intros E [items|]; [|reflexivity]. cbn [ents onm option_map]. unfold degree_entries, nmap. rewrite !map_map.
+  apply map_ext. intros [k v]. reflexivity.
+Qed.
+Lemma ents_not_single_null : forall o1 o2 o3, dents o1 o2 o3 <> [JNull].
+Proof.
+  intros o1 o2 o3 H. unfold dents in H.
+  assert (Hin : In JNull (ents E1 o1 ++ ents E2 o2 ++ ents E3 o3)) by (rewrite H; now left).
+  rewrite !in_app_iff in Hin.
+  assert (Hn : forall E oo, ~ In JNull (ents E oo)).
+  { intros E [items|]; cbn; [|tauto]. unfold degree_entries. intro Hi. apply in_map_iff in Hi as (x & Hx & _). discriminate. }
+  destruct Hin as [Hi|[Hi|Hi]]; eapply Hn; eauto.
+Qed.
+Lemma nmap_dout : forall o1 o2 o3, nmap (dout o1 o2 o3) = dout (onm o1) (onm o2) (onm o3).
+Proof.
+  intros o1 o2 o3. unfold dout. pose proof (ents_not_single_null o1 o2 o3) as Hn.
+  assert (Hm : map none_to_empty (dents o1 o2 o3) = dents (onm o1) (onm o2) (onm o3)).
+  { unfold dents. now rewrite !map_app, !map_n2e_ents. }
+  destruct (dents o1 o2 o3) as [|t0 tr] eqn:E.
+  - cbn in Hm. rewrite <- Hm. reflexivity.
+  - cbn [nmap map fst snd]. rewrite n2e_arr by exact Hn. rewrite Hm.
+    destruct (dents (onm o1) (onm o2) (onm o3)) eqn:E2; [cbn in Hm; discriminate|reflexivity].
+Qed.
+Lemma nmap_dblocks : forall o1 o2 o3, nmap (dblocks o1 o2 o3) = dblocks (onm o1) (onm o2) (onm o3).
+Proof. intros. unfold dblocks. now rewrite !nmap_app, !nmap_blk. Qed.
+Lemma nmap_bblk : forall ob, nmap (bblk ob) = bblk (onm ob).
+Proof. intros [items|]; reflexivity. Qed.
+Lemma nmap_bout : forall ob, nmap (bout ob) = bout (onm ob).
+Proof.
+  intros [items|]; [|reflexivity]. cbn [bout onm option_map nmap map fst snd].
+  rewrite n2e_arr by (intro Hc; assert (Hi : In JNull (map db_entry items)) by (rewrite Hc; now left);
+                      apply in_map_iff in Hi as (x & Hx & _); discriminate).
+  unfold nmap. rewrite !map_map. reflexivity.
+Qed.
+
+Lemma jget_dblocks_other : forall k o1 o2 o3,
+  String.eqb k E1 = false -> String.eqb k E2 = false -> String.eqb k E3 = false -> jget k (dblocks o1 o2 o3) = None.
+Proof. intros k o1 o2 o3 H1 H2 H3. unfold dblocks. now rewrite !jget_app, !jget_blk_other. Qed.
+Lemma jget_dout_other : forall k o1 o2 o3, String.eqb k K_pdt = false -> jget k (dout o1 o2 o3) = None.
+Proof. intros k o1 o2 o3 H. unfold dout. destruct (dents o1 o2 o3); cbn; [reflexivity|now rewrite H]. Qed.
+Lemma jget_bblk_other : forall k ob, String.eqb k K_pddb = false -> jget k (bblk ob) = None.
+Proof. intros k [items|] H; cbn; [now rewrite H|reflexivity]. Qed.
+Lemma jget_bout_other : forall k ob, String.eqb k K_pddbt = false -> jget k (bout ob) = None.
+Proof. intros k [items|] H; cbn; [now rewrite H|reflexivity]. Qed.
+
+Record roadm_params_ok (o : obj) (o1 o2 o3 ob : option obj) : Prop := {
+  rp_lumped : lumped_ok o;
+  rp_e1 : jget E1 o = None; rp_e2 : jget E2 o = None; rp_e3 : jget E3 o = None; rp_pdt : jget K_pdt o = None;
+  rp_db : jget K_pddb o = None; rp_dbt : jget K_pddbt o = None;
+  rp_losspf : jget K_losspf o = None; rp_raman : jget K_raman o = None; rp_loss : not_obj (jget K_loss o);
+  rp_i1 : items_ok o1; rp_i2 : items_ok o2; rp_i3 : items_ok o3; rp_ib : items_ok ob
+}.
+
+Lemma roadm_forward : forall ty o o1 o2 o3 ob, is_roadm ty = true -> roadm_params_ok o o1 o2 o3 ob ->
+  chain (PF ty) (o ++ dblocks o1 o2 o3 ++ bblk ob) = Ok (o ++ dout o1 o2 o3 ++ bout ob).
+Proof.
+  intros ty o o1 o2 o3 ob Hty [Hl A1 A2 A3 A4 A5 A6 A7 A8 A9 K1 K2 K3 Kb]. unfold PF. rewrite chain_cons.
+  assert (Hlum : lumped_ok (o ++ dblocks o1 o2 o3 ++ bblk ob)).
+  { unfold lumped_ok in *. rewrite !jget_app, jget_dblocks_other, jget_bblk_other by reflexivity.
+    now destruct (jget "lumped_losses" o). }
+  rewrite (P2_id _ Hlum). cbn [bind]. rewrite chain_cons. unfold P4, P5. rewrite Hty.
+  rewrite (degree_fwd o (bblk ob) o1 o2 o3 A1 A2 A3 A4) by (try assumption; apply jget_bblk_other; reflexivity).
+  cbn [bind]. rewrite chain_cons.
+  rewrite (design_fwd o (dout o1 o2 o3) ob Kb A5 A6) by (apply jget_dout_other; reflexivity).
+  cbn [bind]. rewrite chain_cons.
+  rewrite loss_params_id.
+  - cbn [bind]. rewrite chain_cons. rewrite raman_params_id; [reflexivity|].
+    now rewrite !jget_app, A8, jget_dout_other, jget_bout_other by reflexivity.
+  - unfold not_obj in *. rewrite !jget_app. destruct (jget K_loss o); [exact A9|].
+    rewrite jget_dout_other, jget_bout_other by reflexivity. discriminate.
+Qed.
+
+Lemma roadm_backward : forall ty o o1 o2 o3 ob, is_roadm ty = true -> roadm_params_ok o o1 o2 o3 ob ->
+  chain (PB ty) (o ++ dout o1 o2 o3 ++ bout ob) = Ok (o ++ dblocks o1 o2 o3 ++ bblk ob).
+Proof.
+  intros ty o o1 o2 o3 ob Hty [Hl A1 A2 A3 A4 A5 A6 A7 A8 A9 K1 K2 K3 Kb]. unfold PB. rewrite chain_cons.
+  unfold Q1, Q2. rewrite Hty.
+  rewrite (back_degree_fwd o (bout ob) o1 o2 o3 A1 A2 A3 A4) by (try assumption; apply jget_bout_other; reflexivity).
+  cbn [bind]. rewrite chain_cons.
+  rewrite (back_design_fwd o (dblocks o1 o2 o3) ob Kb A5 A6) by (apply jget_dblocks_other; reflexivity).
+  cbn [bind]. rewrite chain_cons.
+  rewrite back_loss_params_id by (now rewrite !jget_app, A7, jget_dblocks_other, jget_bblk_other by reflexivity).
+  cbn [bind]. rewrite chain_cons.
+  rewrite back_raman_params_id by (now rewrite !jget_app, A8, jget_dblocks_other, jget_bblk_other by reflexivity).
+  reflexivity.
+Qed.
+
+Lemma roadm_params_ok_n : forall o o1 o2 o3 ob, roadm_params_ok o o1 o2 o3 ob ->
+  roadm_params_ok (nmap o) (onm o1) (onm o2) (onm o3) (onm ob).
+Proof.
+  intros o o1 o2 o3 ob [Hl A1 A2 A3 A4 A5 A6 A7 A8 A9 K1 K2 K3 Kb].
+  constructor; try (now apply jget_nmap_none); try (now apply items_ok_n).
+  - now apply lumped_ok_n2e.
+  - unfold not_obj in *. intros lc. rewrite jget_nmap. destruct (jget K_loss o) as [v|]; [|discriminate].
+    cbn [option_map]. destruct v as [| | | |l|lc0]; try discriminate.
+    + cbn. destruct l as [|[] [|]]; discriminate.
+    + now elim (A9 lc0).
+Qed.
+
+Theorem PT_roadm : forall ty o o1 o2 o3 ob, is_roadm ty = true -> roadm_params_ok o o1 o2 o3 ob ->
+  PT ty (o ++ dblocks o1 o2 o3 ++ bblk ob) (o ++ dout o1 o2 o3 ++ bout ob).
+Proof.
+  intros ty o o1 o2 o3 ob Hty H. split; [|split].
+  - now apply roadm_forward.
+  - rewrite !nmap_app, nmap_dblocks, nmap_bblk, nmap_dout, nmap_bout.
+    apply roadm_forward; [exact Hty|now apply roadm_params_ok_n].
+  - now apply roadm_backward.
 Qed.
